@@ -214,12 +214,16 @@ def width_of(ast, tenv):
     k = ast[0]
     if k == "num":
         return None
+    if k in ("coq", "coqres"):          # a ready Gallina term of known width (statement translators)
+        return ast[2]
     if k == "var":
         return tenv.get(ast[1])
     if k == "field":
         return tenv.get(field_name(ast))
     if k == "cast":
         return ast[1]
+    if k == "call" and ast[1] in ("cmp::min", "core::cmp::min") and len(ast[2]) == 2:
+        return width_of(ast[2][0], tenv) or width_of(ast[2][1], tenv)
     if k == "bin":
         if ast[1] in ("<<", ">>"):
             return width_of(ast[2], tenv)
@@ -251,6 +255,15 @@ def emit(ast, tenv, cenv, name, want=None):
     k = ast[0]
     if k == "num":
         return f"(Ok {ast[1]})"
+    if k == "coq":                      # ('coq', term : N, width)
+        return f"(Ok {ast[1]})"
+    if k == "coqres":                   # ('coqres', term : res N, width)
+        return ast[1]
+    if k == "call" and ast[1] in ("cmp::min", "core::cmp::min") and len(ast[2]) == 2:
+        w = width_of(ast, tenv) or want
+        if w is None:
+            raise AnchorError(f"{name}: cannot infer width of {ast!r}")
+        return f"(mb (mi_min {w}) {emit(ast[2][0], tenv, cenv, name, w)} {emit(ast[2][1], tenv, cenv, name, w)})"
     if k == "var":
         v = ast[1].split("::")[-1]
         if ast[1] in tenv:
@@ -3279,7 +3292,8 @@ def gen_portable():
 #     a field store `p->f = e` / `s.f = e` is the record update set_T_f.  uintN_t / size_t scalars are N, `bool` is
 #     bool, arrays of uint8_t / uint32_t are `list N` (Base/Arr.v), a nested struct is the nested record.
 #     blake3_hasher.cv_stack is not interpreted here (no function translated below touches it): its type is the
-#     parameter S of src_blake3_hasher, and any access to it is an AnchorError.
+#     parameter S of src_blake3_hasher, and any access to it is an AnchorError.  (GenCHasherLoops.v, further down,
+#     uses the same records at S := list N and translates the accesses; see the comment block before _CS_STACK_SITES.)
 #   * a function becomes `src_<name>`: parameters in source order (a pointer to a struct is the struct value, a
 #     pointer + length pair stays two parameters); the result is the tuple of the pointer / array parameters the body
 #     writes, in parameter order, followed by the C return value.
@@ -3297,7 +3311,7 @@ def gen_portable():
 # Everything that is not one of these shapes raises AnchorError: no statement is ever skipped.
 # ---------------------------------------------------------------------------
 _CS_TOK = re.compile(r"(?P<num>0[xX][0-9a-fA-F]+|\d+)[uUlL]*|(?P<id>[A-Za-z_]\w*)"
-                     r"|(?P<op>->|\+=|==|!=|<=|>=|<<|>>|&&|\|\||[-+*/%&|^!~<>=().,\[\]{};])")
+                     r"|(?P<op>->|\+=|-=|==|!=|<=|>=|<<|>>|&&|\|\||[-+*/%&|^!~<>=().,\[\]{};])")
 _CS_INT = {"uint8_t": 8, "uint32_t": 32, "uint64_t": 64, "size_t": 64}
 _CS_BYTEPTR = ("void", "char")           # `const void *` / `const char *` data is read as bytes
 
@@ -3322,8 +3336,8 @@ def _cs_tokens(text, name):
 
 
 class CSParser:
-    """statements: ('if', cond, [stmts], [stmts]|None) ('return', e) ('decl', const, tyname, star, name, len|None, init|None)
-                   ('expr', e)
+    """statements: ('if', cond, [stmts], [stmts]|None) ('return', e|None) ('decl', const, tyname, star, name, len|None, init|None)
+                   ('expr', e) ('while', cond, [stmts])
        expressions: ('num', v) ('var', x) ('bin', op, a, b) ('un', op, a) ('cast', tyname, a) ('call', f, [args])
                     ('index', a, i) ('field', a, f) ('arrow', a, f) ('assign', op, lhs, rhs)"""
     PREC = {"||": 1, "&&": 2, "|": 3, "^": 4, "&": 5, "==": 6, "!=": 6, "<": 7, ">": 7, "<=": 7, ">=": 7,
@@ -3393,10 +3407,18 @@ class CSParser:
             return ("if", c, th, el)
         if (k, v) == ("id", "return"):
             self.next()
+            if self.accept(";"):
+                return ("return", None)
             e = self.expr(0)
             self.expect(";")
             return ("return", e)
-        if k == "id" and v in ("while", "for", "do", "switch", "goto", "break", "continue", "else"):
+        if (k, v) == ("id", "while"):
+            self.next()
+            self.expect("(")
+            c = self.expr(0)
+            self.expect(")")
+            return ("while", c, self.block())
+        if k == "id" and v in ("for", "do", "switch", "goto", "break", "continue", "else"):
             raise self.err(f"statement {v!r} is not translated")
         if self.is_type_start() and not (self.peek(1) == ("op", "(")):
             d = self.decl()
@@ -3440,7 +3462,7 @@ class CSParser:
     # ---- expressions ----
     def expr(self, minprec, assign=False):
         lhs = self.unary()
-        if assign and self.peek() in (("op", "="), ("op", "+=")):
+        if assign and self.peek() in (("op", "="), ("op", "+="), ("op", "-=")):
             op = self.next()[1]
             return ("assign", op, lhs, self.expr(0))
         while True:
@@ -3505,6 +3527,7 @@ class CSCtx:
     def __init__(self, ints, flags, arrays, opaque):
         self.ints, self.flags, self.arrays, self.opaque = ints, flags, arrays, opaque
         self.structs, self.poly, self.funcs, self.out = {}, set(), {}, []
+        self.S, self.flat = "S", {}        # the argument of the records' type parameter; declared shape of the opaque members
 
     def typenames(self):
         return set(_CS_INT) | {"bool", "void", "char"} | set(self.structs)
@@ -3526,6 +3549,8 @@ class CSCtx:
             if (sname, fname) in self.opaque:
                 if ln is None:
                     raise AnchorError(f"struct {sname}: uninterpreted member {fname} is not an array")
+                if ty in _CS_INT:
+                    self.flat[(sname, fname)] = ("arr", _CS_INT[ty], self.const_int(ln, sname))
                 fields.append((fname, ("opaque",)))
             elif ty in _CS_INT:
                 fields.append((fname, ("arr", _CS_INT[ty], self.const_int(ln, sname)) if ln is not None
@@ -3550,13 +3575,24 @@ class CSCtx:
         if t[0] == "arr":
             return "list N"
         if t[0] == "opaque":
-            return "S"
+            return self.S
         if t[0] in ("struct", "ptr"):
-            return f"(src_{t[1]} S)" if t[1] in self.poly else f"src_{t[1]}"
+            return f"(src_{t[1]} {self.S})" if t[1] in self.poly else f"src_{t[1]}"
         raise AnchorError(f"no Gallina type for {t!r}")
 
     def is_poly(self, t):
         return t[0] in ("struct", "ptr") and t[1] in self.poly
+
+    def interpret_flat(self):
+        """from here on the opaque members are the flat arrays of their C declarations: the records are used at
+        S := list N, and member access is translated (GenCHasherLoops.v)"""
+        if self.S != "S" or len(self.opaque) != 1:
+            raise AnchorError("interpret_flat: expected exactly one uninterpreted member")
+        for (sname, fname) in self.opaque:
+            if (sname, fname) not in self.flat or self.flat[(sname, fname)][1] != 8:
+                raise AnchorError(f"struct {sname}: member {fname} is not a byte array")
+            self.structs[sname] = [(f, self.flat[(sname, fname)] if f == fname else t) for f, t in self.structs[sname]]
+        self.S = "(list N)"
 
     def zero_value(self, t, name):
         if t[0] == "int":
@@ -3665,6 +3701,8 @@ class CSCtx:
 
 
 class CSFn:
+    loops = False          # CSLoopFn: the statement shapes of GenCHasherLoops.v are accepted as well
+
     def __init__(self, ctx, text, cname):
         self.ctx, self.c, self.name = ctx, cname, "src_" + cname
         hdr = r"\b(?:INLINE\s+)?(void|size_t|uint8_t|uint32_t|uint64_t|output_t)\s+" + cname + r"\s*\("
@@ -3677,6 +3715,7 @@ class CSFn:
         self.stmts = CSParser(_cs_tokens(body, self.name), self.name, ctx.typenames()).stmts_until(("eof", None))
         self.env, self.lines, self.written, self.exts, self.extras = {}, [], set(), [], []
         self.monadic, self.tmp, self.poly = False, 0, False
+        self.recorders, self.site, self.nsite, self.fuel, self.sites_used = [], None, 0, False, set()
         for pname, t, const in self.params:
             self.declare(pname, t, const=const, param=True)
 
@@ -3685,7 +3724,8 @@ class CSFn:
 
     # ---- environment ----
     def declare(self, v, t, const=False, param=False, uninit=None):
-        if v in self.env or v in self.ctx.ints or v in self.ctx.flags or v in self.ctx.arrays or v in self.ctx.funcs:
+        if v in self.env or v in self.ctx.ints or v in self.ctx.flags or v in self.ctx.arrays or v in self.ctx.funcs \
+                or v == "fuel":
             raise self.err(f"{v} is declared twice or shadows a constant")
         if self.ctx.is_poly(t):
             self.poly = True
@@ -3697,11 +3737,18 @@ class CSFn:
 
     def let(self, v, term, res=False, note=None):
         note = f"   (* {note} *)" if note else ""
+        self.assigned(v)
         if res:
             self.monadic = True
             self.lines.append(f"  {v} <- {term} ;;{note}")
         else:
             self.lines.append(f"  let {v} := {term} in{note}")
+
+    def assigned(self, v):
+        """v is (re)bound here: every enclosing block / loop body that is being translated hands it on"""
+        if v in self.env:
+            for r in self.recorders:
+                r.add(v)
 
     # ---- object paths: (root variable, [members], type, is_pointer) ----
     def path(self, ast):
@@ -3795,6 +3842,8 @@ class CSFn:
             if v in self.env:
                 t = self.env[v]["type"]
                 if t[0] in ("int", "bool"):
+                    if self.env[v]["uninit"]:
+                        raise self.err(f"{v} is read before it is written")
                     return v, t, False
                 raise self.err(f"{v} is not a scalar")
             if v in self.ctx.ints:
@@ -3824,13 +3873,20 @@ class CSFn:
             if len(ws) != 2:
                 raise self.err(f"operands of '|': {ast!r}")
             return f"(N.lor {a} {b})", ("int", max(8, max(ws))), False
-        if k == "bin" and ast[1] in ("+", "-"):
+        if k == "bin" and (ast[1] in ("+", "-") or (ast[1] == "*" and self.loops)):
             a, ta, _ = self.val(ast[2])
             b, tb, _ = self.val(ast[3])
             ws = [t[1] for t in (ta, tb) if t[0] == "int"]
-            if not ws or max(ws) != 64 or any(t[0] not in ("int", "lit") for t in (ta, tb)):
+            if ws and max(ws) == 64 and all(t[0] in ("int", "lit") for t in (ta, tb)):
+                w = 64
+            elif self.loops and ws and max(ws) < 32 and all(t[0] in ("int", "lit") for t in (ta, tb)):
+                w = 31           # uint8_t / int operands: the operation is done in `int`; its non-negative range
+            else:
                 raise self.err(f"arithmetic that is not at size_t / uint64_t width: {ast!r}")
-            return f"{'mi_add' if ast[1] == '+' else 'mi_sub'} 64 {a} {b}", ("int", 64), True
+            term = f"{ {'+': 'mi_add', '-': 'mi_sub', '*': 'mi_mul'}[ast[1]]} {w} {a} {b}"
+            if self.site is not None:
+                term = f"at_site {self.site[0] if ast[1] == '-' else self.site[1]} ({term})"
+            return term, ("int", w), True
         if k == "call":
             return self.call(ast, value=True)
         raise self.err(f"cannot translate expression {ast!r}")
@@ -3859,12 +3915,99 @@ class CSFn:
     def arr_w(self, ast):
         """array lvalue: (root, members, element width, length, offset term or None)"""
         if ast[0] == "var" and self.env.get(ast[1], {}).get("type", ("",))[0] == "alias":
-            _, root, fs, w, ln, off = self.env[ast[1]]["type"]
+            _, root, fs, w, ln, off = self.env[ast[1]]["type"][:6]
             return root, fs, w, ln, off
         root, fs, t, _ = self.path(ast)
         if t[0] != "arr":
             raise self.err(f"not an array: {ast!r}")
         return root, fs, t[1], t[2], None
+
+    # ---- `&a[e]` and pointer locals initialised with one (GenCHasherLoops.v) ----
+    def owner(self, root, fs):
+        """(struct, member) of the last step of an object path"""
+        t = self.env[root]["type"]
+        t = ("struct", t[1]) if t[0] == "ptr" else t
+        own = None
+        for f in fs:
+            own = (t[1], f)
+            t = dict(self.ctx.structs[t[1]])[f]
+        return own
+
+    def ptr(self, ast):
+        """None unless ast is `&a[e]` or a pointer local declared as one; then the dict
+             root, fs, w, ln : the array object a (element width, declared length)
+             off             : Gallina nat term of the offset e
+             k               : e as a python int when it is a constant (then bounds are checked here), else None
+             offN, code      : for a variable e (only into the flat cv_stack): the N term of e and the Panic code of the
+                               bounds assert every access through this pointer carries"""
+        if ast[0] == "var":
+            t = self.env.get(ast[1], {}).get("type", ("",))
+            return t[6] if t[0] == "alias" and len(t) == 7 else None
+        if not (self.loops and ast[0] == "un" and ast[1] == "&" and ast[2][0] == "index"):
+            return None
+        root, fs, t, _ = self.path(ast[2][1])
+        if t[0] != "arr" or t[2] is None:
+            raise self.err(f"'&' of an element of something that is not an array of known length: {ast!r}")
+        P = {"root": root, "fs": fs, "w": t[1], "ln": t[2], "off": None, "k": None, "offN": None, "code": None}
+        try:
+            P["k"] = self.ctx.const_int(ast[2][2], self.name)
+        except AnchorError:
+            pass
+        if P["k"] is not None:
+            P["off"] = f"{P['k']}%nat"
+            return P
+        if self.owner(root, fs) not in self.ctx.opaque:
+            raise self.err(f"variable index into an array other than the flat cv_stack: {ast!r}")
+        sites = _CS_STACK_SITES.get(self.c, [])
+        if self.nsite >= len(sites):
+            raise self.err("more cv_stack accesses than Panic codes in _CS_STACK_SITES")
+        saved, self.site = self.site, sites[self.nsite]
+        self.nsite += 1
+        term, it, _ = self.val(ast[2][2])
+        P["code"] = self.site[1]
+        self.site = saved
+        if it[0] != "int":
+            raise self.err(f"index {ast[2][2]!r}")
+        P["offN"], P["off"] = term, f"(N.to_nat {term})"
+        return P
+
+    def ptr_bounds(self, P, n, cur):
+        if P["code"] is not None:
+            self.monadic = True
+            self.lines.append(f"  assert! ({P['offN']} + {n} <=? N.of_nat (length {cur})) code {P['code']} ;;")
+        elif P["k"] + n > P["ln"]:
+            raise self.err(f"{n} elements at offset {P['k']} of an array of {P['ln']}")
+
+    def ptr_read(self, P, n, init=True):
+        """the n elements at the pointer (bounds assert first); init: they must have been written"""
+        cur = self.cur(P["root"], P["fs"])
+        self.ptr_bounds(P, n, cur)
+        en = self.env[P["root"]]
+        if en["uninit"] is not None:
+            if P["fs"] or P["k"] is None:
+                raise self.err(f"pointer into the local {P['root']}")
+            if init and en["uninit"] and not set(range(P["k"], P["k"] + n)) <= en.get("assigned", set()):
+                raise self.err(f"{P['root']}[{P['k']} .. {P['k'] + n}) is read before it is written")
+        return f"(firstn {n}%nat (skipn {P['off']} {cur}))"
+
+    def ptr_write(self, P, data, n, note=None, checked=False):
+        """n elements stored at the pointer (bounds assert first, unless this is the write-back of a callee's result
+        into the n elements whose current contents were just passed to it, and asserted, by ptr_read)"""
+        cur = self.cur(P["root"], P["fs"])
+        if not checked:
+            self.ptr_bounds(P, n, cur)
+        en = self.env[P["root"]]
+        if en["uninit"] is not None and (P["fs"] or P["k"] is None):
+            raise self.err(f"pointer into the local {P['root']}")
+        self.write(P["root"], P["fs"], f"(arr_store {cur} {P['off']} {data})", note=note, whole=False)
+        if en["uninit"] is not None:
+            self.mark(en, P["k"], n, P["ln"])
+
+    def mark(self, en, k, n, ln):
+        """elements [k, k + n) of a local array are written now"""
+        en.setdefault("assigned", set()).update(range(k, k + n))
+        if en["assigned"] >= set(range(ln)):
+            en["uninit"] = set()
 
     def count(self, ast, w, what):
         """memcpy / memset byte count -> (Gallina nat term, python int or None)"""
@@ -3894,9 +4037,14 @@ class CSFn:
             t = dict(self.ctx.structs[t[1]])[f]
         whole = off is None and n is not None and n == ln
         self.write(root, fs, f"(arr_store {cur} {off or '0%nat'} {data})", note=src_text, whole=whole)
+        if not whole and not fs and off is None and n is not None and ln is not None and e["uninit"] is not None \
+                and e["type"][0] == "arr":
+            self.mark(e, 0, n, ln)
 
     # ---- calls ----
-    def call(self, ast, value=False, ret_stmt=False):
+    def call(self, ast, value=False, ret_stmt=False, bind=None):
+        """bind: the name that receives the C return value of a call that also writes through its arguments
+        (`T v = f(p, ..);`; '_' when the source discards it)"""
         fname, args = ast[1], ast[2]
         f = self.ctx.funcs.get(fname)
         if f is None:
@@ -3905,16 +4053,25 @@ class CSFn:
             raise self.err(f"call of {fname}: {len(args)} arguments for {len(f['params'])} parameters")
         if f["poly"]:
             self.poly = True
+        if f.get("fuel"):
+            self.fuel = True
         for x in f["exts"]:
             if x not in self.exts:
                 self.exts.append(x)
         terms, targets = [], []
         for i, (a, (pname, pt, pconst)) in enumerate(zip(args, f["params"])):
+            P = self.ptr(a) if pt[0] == "arr" else None
             if pt[0] in ("int", "bool"):
                 term, t, _ = self.val(a)
                 if not self.fits(t, pt):
                     raise self.err(f"call of {fname}: argument {i + 1} does not fit the parameter {pname}")
                 terms.append(term)
+            elif P is not None:
+                if pt[2] is None or P["w"] != pt[1]:
+                    raise self.err(f"call of {fname}: pointer argument {i + 1} does not match {pname}")
+                terms.append(self.ptr_read(P, pt[2], init=i not in f["inouts"]))
+                if i in f["inouts"]:
+                    targets.append(("*", P, pt[2]))
             elif pt[0] == "arr":
                 if i in f["inouts"]:
                     root, fs, w, ln, off = self.arr_w(a)
@@ -3931,6 +4088,8 @@ class CSFn:
                     targets.append((root, fs))
                 else:
                     cur, w, ln = self.arr_r(a)
+                    if ln is None and pt[2] is not None:
+                        cur = f"(firstn {pt[2]}%nat {cur})"      # a pointer passed for `const T p[n]`: the n elements at it
                 if w != pt[1] or (pt[2] is not None and ln is not None and ln < pt[2]):
                     raise self.err(f"call of {fname}: array argument {i + 1} does not match {pname}")
                 terms.append(cur)
@@ -3954,8 +4113,12 @@ class CSFn:
         for x, xt in f["extras"]:
             if x not in [y for y, _ in self.extras]:
                 self.extras.append((x, xt))
-        head = [f["coq"]] + ["ext_" + x for x in (f["exts"] if not f.get("external") else [])] + terms \
-            + [x for x, _ in f["extras"]]
+        if f.get("fields"):
+            # a formula of GenFormulas.v over the members its C body reads (anchored by the generator)
+            sname = f["params"][0][1][1]
+            terms = [f"({sname}_{g} {terms[0]})" for g in f["fields"]]
+        head = [f["coq"]] + ["ext_" + x for x in (f["exts"] if not f.get("external") else [])] \
+            + (["fuel"] if f.get("fuel") else []) + terms + [x for x, _ in f["extras"]]
         term = " ".join(head)
         if value or ret_stmt:
             if targets:
@@ -3965,19 +4128,27 @@ class CSFn:
             t = f["ret"]
             return f"({term})" if not f["res"] else term, t, f["res"]
         names = []
-        for root, fs in targets:
-            names.append(root if not fs else self.fresh())
-        if f["ret"] is not None:
+        for tg in targets:
+            names.append(tg[0] if not tg[1] and tg[0] != "*" else self.fresh())
+        if f["ret"] is not None and bind is None:
             raise self.err(f"call of {fname}: result discarded")
         if not names:
             raise self.err(f"call of {fname} has no effect")
-        pat = names[0] if len(names) == 1 else "'(" + ", ".join(names) + ")"
+        if bind is not None and f["ret"] is None:
+            raise self.err(f"call of {fname}: no value")
+        pnames = names + ([bind] if bind is not None else [])
+        pat = pnames[0] if len(pnames) == 1 else "'(" + ", ".join(pnames) + ")"
         if f["res"]:
             self.monadic = True
             self.lines.append(f"  {pat} <- {term} ;;")
         else:
             self.lines.append(f"  let {pat} := {term} in")
-        for (root, fs), nm in zip(targets, names):
+        for tg, nm in zip(targets, names):
+            if tg[0] == "*":
+                self.ptr_write(tg[1], nm, tg[2], checked=True)
+                continue
+            root, fs = tg
+            self.assigned(root)
             e = self.env[root]
             if e["const"]:
                 raise self.err(f"call of {fname} writes through the const parameter {root}")
@@ -3988,7 +4159,7 @@ class CSFn:
                     self.written.add(root)
                 if e["uninit"] is not None:
                     e["uninit"] = set()
-        return None
+        return f["ret"] if bind is not None else None
 
     # ---- statements ----
     def stmt(self, s, last):
@@ -4042,6 +4213,14 @@ class CSFn:
                     self.let(f"{v}_off", f"N.to_nat {o}")
                     self.declare(v, ("alias", root, fs, w, aln, f"{v}_off"))
                     return None
+                P = self.ptr(init)
+                if P is not None:
+                    # T *q = &a[e]
+                    if P["offN"] is not None:
+                        self.let(f"{v}_off", P["offN"])
+                        P = dict(P, offN=f"{v}_off", off=f"(N.to_nat {v}_off)")
+                    self.declare(v, ("alias", P["root"], P["fs"], P["w"], P["ln"], P["off"], P))
+                    return None
                 raise self.err(f"pointer declaration {v}")
             if ln is not None:
                 if init is not None or const or t[0] != "int":
@@ -4051,7 +4230,18 @@ class CSFn:
                 self.let(v, f"repeat 0 {n}%nat")
                 return None
             if init is None:
-                raise self.err(f"scalar {v} declared without initialiser")
+                if not self.loops or t[0] != "int" or const:
+                    raise self.err(f"scalar {v} declared without initialiser")
+                self.declare(v, t, uninit={"*"})
+                self.let(v, "0")
+                return None
+            if self.loops and init[0] == "call" and self.ctx.funcs.get(init[1], {}).get("inouts"):
+                # T v = f(p, ..); where f also writes through p
+                it = self.call(init, bind=v)
+                if not self.fits(it, t):
+                    raise self.err(f"initialiser of {v} does not fit {ty}")
+                self.declare(v, t)
+                return None
             term, it, res = self.val(init, top=True)
             if not self.fits(it, t):
                 raise self.err(f"initialiser of {v} does not fit {ty}")
@@ -4067,6 +4257,15 @@ class CSFn:
                 self.let(v, x)
             else:
                 self.let(v, f"uninit_{ty}")
+            return None
+        if self.loops and ty in self.ctx.structs and not star and ln is None and not const and init is not None \
+                and init[0] == "call":
+            # struct T v = f(..);
+            term, rt, res = self.call(init, ret_stmt=True)
+            if rt != ("struct", ty):
+                raise self.err(f"initialiser of {v} is not a {ty}")
+            self.declare(v, ("struct", ty))
+            self.let(v, term, res=res)
             return None
         raise self.err(f"declaration {s!r}")
 
@@ -4095,20 +4294,34 @@ class CSFn:
         fname, args = e[1], e[2]
         if len(args) != 3:
             raise self.err(f"{fname}: arguments")
-        dst = self.arr_w(args[0])
-        w = dst[2]
+        P = self.ptr(args[0])
+        dst = self.arr_w(args[0]) if P is None else None
+        w = dst[2] if P is None else P["w"]
+
+        def put(data, n, what):
+            if P is None:
+                return self.store(dst, data, n, what)
+            if n is None:
+                raise self.err(f"{what}: variable byte count through a pointer")
+            return self.ptr_write(P, data, n, note=what)
         if fname == "memcpy":
+            Q = self.ptr(args[1])
+            if Q is not None:
+                cnt, n = self.count(args[2], w, "memcpy")
+                if Q["w"] != w or n is None:
+                    raise self.err("memcpy from a pointer: element type / variable byte count")
+                return put(self.ptr_read(Q, n), n, "memcpy")
             term, sw, sln = self.arr_r(args[1])
             if sw != w:
                 raise self.err("memcpy between arrays of different element types")
             cnt, n = self.count(args[2], w, "memcpy")
             if n is not None and sln is not None and n > sln:
                 raise self.err(f"memcpy reads {n} elements of an array of {sln}")
-            return self.store(dst, f"(firstn {cnt} {term})", n, "memcpy")
+            return put(f"(firstn {cnt} {term})", n, "memcpy")
         if args[1][0] != "num":
             raise self.err("memset value")
         cnt, n = self.count(args[2], w, "memset")
-        return self.store(dst, f"(repeat {args[1][1]} {cnt})", n, "memset")
+        return put(f"(repeat {args[1][1]} {cnt})", n, "memset")
 
     def assign(self, e):
         _, op, lhs, rhs = e
@@ -4134,6 +4347,21 @@ class CSFn:
                 if en["assigned"] != set(range(ln)):
                     en["uninit"].add("*")
             return None
+        if self.loops and lhs[0] == "var" and lhs[1] in self.env:
+            v, en = lhs[1], self.env[lhs[1]]
+            if op == "+=" and en["param"] and en["type"][0] == "arr" and en["type"][1] == 8 and en["type"][2] is None:
+                # p += n on `const uint8_t *p`: the bytes that remain (the pointed-to data is not written)
+                a, rt, _ = self.val(rhs)
+                if not self.fits(rt, ("int", 64)):
+                    raise self.err(f"{e!r}: pointer increment")
+                return self.let(v, f"skipn (N.to_nat {a}) {v}")
+            if op == "=" and en["type"][0] == "struct" and not en["param"] and rhs[0] == "call":
+                term, rt, res = self.call(rhs, ret_stmt=True)
+                if rt != en["type"]:
+                    raise self.err(f"assignment {e!r}: type")
+                self.let(v, term, res=res)
+                en["uninit"] = set()
+                return None
         if lhs[0] == "var":
             v = lhs[1]
             en = self.env.get(v)
@@ -4147,21 +4375,35 @@ class CSFn:
                 raise self.err(f"assignment to a non-scalar {lhs!r}")
             old = None
         if op == "=":
+            code = _CS_ASSIGN_SITES.get((self.c, lhs[1])) if lhs[0] == "var" and self.loops else None
+            if code is not None:
+                if code in self.sites_used:
+                    raise self.err(f"second assignment to {lhs[1]}: _CS_ASSIGN_SITES names one site")
+                saved, self.site = self.site, (code, code)
             term, rt, res = self.val(rhs, top=(not fs and lhs[0] == "var"))
+            if code is not None:
+                self.site = saved
+                if res:
+                    self.sites_used.add(code)
             if not self.fits(rt, t):
                 raise self.err(f"assignment {e!r} truncates")
             if lhs[0] == "var":
                 if en["param"]:
                     raise self.err(f"assignment to the parameter {v}")
-                return self.let(v, term, res=res)
+                self.let(v, term, res=res)
+                if en["uninit"]:
+                    en["uninit"] = set()
+                return None
             return self.write(root, fs, term)
-        # +=
+        # += / -=
         a, rt, _ = self.val(rhs)
         if not self.fits(rt, t):
             raise self.err(f"{e!r}: operand wider than the target")
         cur = old if old is not None else self.read(root, fs)
+        if old is not None and self.env[old]["uninit"]:
+            raise self.err(f"{old} is read before it is written")
         v = self.fresh()
-        self.let(v, f"mi_add {t[1]} {cur} {a}", res=True)
+        self.let(v, f"{'mi_add' if op == '+=' else 'mi_sub'} {t[1]} {cur} {a}", res=True)
         if lhs[0] == "var":
             return self.let(root, v)
         return self.write(root, fs, v)
@@ -4177,8 +4419,8 @@ class CSFn:
 
     def ret_value(self, e):
         """the returned expression -> pure Gallina term of the return type (checked sub-terms are bound first)"""
-        if self.ret is None:
-            raise self.err("return with a value in a void function")
+        if self.ret is None or e is None:
+            raise self.err("return with a value in a void function / without a value")
         if self.ret[0] == "struct":
             if e[0] == "call":
                 term, t, res = self.call(e, ret_stmt=True)
@@ -4259,7 +4501,9 @@ class CSFn:
         return text
 
 
-def gen_c_hasher_small():
+def _c_hasher_small_parts():
+    """(ctx, text pieces of GenCHasherSmall.v, (blake3.h, blake3_impl.h, blake3.c) without comments): the struct
+    layouts, constants and signatures are built once here for GenCHasherSmall.v and GenCHasherLoops.v"""
     h = strip_comments(src("c/blake3.h"))
     ih = strip_comments(src("c/blake3_impl.h"))
     c = strip_comments(src("c/blake3.c"))
@@ -4297,6 +4541,281 @@ def gen_c_hasher_small():
                "blake3_hasher_init", "blake3_hasher_init_keyed", "blake3_hasher_update", "blake3_hasher_finalize",
                "blake3_hasher_init_derive_key_raw", "blake3_hasher_init_derive_key", "blake3_hasher_reset"):
         out.append(CSFn(ctx, c, fn).translate())
+    return ctx, out, (h, ih, c)
+
+
+def gen_c_hasher_small():
+    return "\n".join(_c_hasher_small_parts()[1])
+
+
+# ---------------------------------------------------------------------------
+# GenCHasherLoops.v: the loop-carrying core of c/blake3.c (chunk_state_update, hasher_merge_cv_stack, hasher_push_cv,
+# blake3_hasher_finalize_seek), translated statement by statement on top of GenCHasherSmall.v (same records, same
+# translated callees, same rules as above).  What is added:
+#   * blake3_hasher.cv_stack is INTERPRETED: it is the flat `uint8_t cv_stack[(BLAKE3_MAX_DEPTH + 1) * BLAKE3_OUT_LEN]`
+#     of c/blake3.h, i.e. the records are used at S := list N.  `&self->cv_stack[e]` is a pointer into it: e is
+#     translated from the source text, and EVERY access through the pointer (n bytes read as an argument declared
+#     `T p[n]` / as a memcpy source, n bytes written by a callee / by memcpy) is preceded by
+#     `assert! (e + n <=? N.of_nat (length cv_stack)) code c`; a read is firstn n (skipn e cv_stack), a write is
+#     arr_store cv_stack e data.  `&local[k]` with a constant k is the same without the assert (k + n is checked here).
+#     A pointer argument passed for a parameter declared `const T p[n]` is the n elements at the pointer (firstn n).
+#   * integer promotion: arithmetic whose operands are all narrower than int (uint8_t, literals) is done in `int`;
+#     it is translated at width 31 (the non-negative range of int), stricter than C as everywhere: a negative or
+#     overflowing result is a Panic.  `*` is mi_mul.
+#   * Panic codes of the stack accesses: the codes of Model/CHasher.v, so that the results are comparable.
+#     _CS_STACK_SITES[f][k] = (c1, c2) for the k-th `&self->cv_stack[e]` of f in source order: inside e a wrap-around of
+#     a subtraction is Panic c1, an overflow of `+` / `*` and the bounds assert are Panic c2 (`at_site c r` replaces the
+#     Panic code of the checked operation r by c).  _CS_ASSIGN_SITES[(f, v)] = c: the checked arithmetic of the one
+#     assignment `v = e;` of f (`cvs_remaining = self->cv_stack_len - 2`: the stack entries below the top two).
+#     The number of sites found must match these tables.
+#   * `while (c) { body }` -> a separate `Fixpoint src_<f>_loop<k>` on explicit fuel.  Its parameters: the ext_
+#     functions the body calls, `fuel : nat`, the variables in scope that the condition / body mention (declaration
+#     order); its result: the variables the body assigns.  It tests the condition first (no checked arithmetic is
+#     allowed there), returns OutOfFuel when the condition holds and fuel = O, otherwise runs the body statements in
+#     source order and recurses on the predecessor.  A function that contains a loop, or calls one that does, takes
+#     `fuel` after its ext_ parameters and passes it on unchanged.
+#   * `if (c) { A } [else { B }]` with arbitrary statements: `'(v..) <- (if c then A ;; Ok (v..) else B ;; Ok (v..)) ;;`
+#     where v.. are the variables of the enclosing scope that A or B assign; declarations inside a block are local
+#     to it.  A local declared without initialiser (`output_t output; size_t cvs_remaining;`) is zero-filled, and
+#     reading it is an AnchorError unless every path has assigned it (for arrays: every element read).
+#   * `if (c) { A; return; }` at the top level of a void function: `if c then A ;; <result> else <the rest>`.
+#   * `p += n` on a `const uint8_t *p` parameter: p is the list of the bytes that remain, `skipn (N.to_nat n) p`;
+#     `x -= e` is mi_sub at the width of x; `T v = f(p, ..);` where f also writes through p binds both; the value of
+#     such a call may be discarded only where _CS_DISCARD_OK says so (`chunk_state_fill_buf(self, input, input_len);`
+#     at the end of chunk_state_update); `struct T v = f(..);` and `v = f(..);` for struct values.
+#   * chunk_state_len(&s) and popcnt(x) are the formulas c_chunk_state_len / c_popcnt of GenFormulas.v (translated
+#     there from the same return statements); here it is anchored that chunk_state_len reads exactly
+#     s->blocks_compressed and s->buf_len, which are the formula's two arguments.
+# Everything else raises AnchorError.
+# ---------------------------------------------------------------------------
+_CS_STACK_SITES = {"hasher_merge_cv_stack": [(320, 321)],
+                   "hasher_push_cv": [(322, 322)],
+                   "blake3_hasher_finalize_seek": [(326, 326), (324, 324)]}
+_CS_ASSIGN_SITES = {("blake3_hasher_finalize_seek", "cvs_remaining"): 325}
+_CS_DISCARD_OK = {"chunk_state_update": ("chunk_state_fill_buf",)}
+
+
+class CSLoopFn(CSFn):
+    loops = True
+
+    def __init__(self, ctx, text, cname):
+        CSFn.__init__(self, ctx, text, cname)
+        self.monadic, self.nloop, self.loop_defs, self.early = True, 0, [], False
+
+    # ---- the state of the "written before read" bookkeeping, per variable ----
+    def snapshot(self):
+        return {v: (None if e["uninit"] is None else set(e["uninit"]), set(e.get("assigned", ())))
+                for v, e in self.env.items()}
+
+    def restore(self, snap):
+        for v, (u, a) in snap.items():
+            if v in self.env:
+                self.env[v]["uninit"] = None if u is None else set(u)
+                self.env[v]["assigned"] = set(a)
+
+    def block(self, stmts):
+        """the statements of a `{ }` block -> (lines, variables of the enclosing scope it assigns)"""
+        outer = set(self.env)
+        saved, self.lines = self.lines, []
+        rec = set()
+        self.recorders.append(rec)
+        for s in stmts:
+            self.stmt(s, False)
+        self.recorders.pop()
+        lines, self.lines = self.lines, saved
+        for v in list(self.env):
+            if v not in outer:
+                del self.env[v]
+        return lines, rec
+
+    @staticmethod
+    def tup(vs):
+        return vs[0] if len(vs) == 1 else "(" + ", ".join(vs) + ")"
+
+    @staticmethod
+    def pat(vs):
+        return vs[0] if len(vs) == 1 else "'(" + ", ".join(vs) + ")"
+
+    def vars_in(self, node, acc):
+        if isinstance(node, tuple) and len(node) == 2 and node[0] == "var" and isinstance(node[1], str):
+            if node[1] in self.env and node[1] not in acc:
+                acc.append(node[1])
+        elif isinstance(node, (tuple, list)):
+            for x in node:
+                self.vars_in(x, acc)
+        return acc
+
+    # ---- statements ----
+    def stmt(self, s, top):
+        k = s[0]
+        if k == "if":
+            return self.if_stmt(s, top)
+        if k == "while":
+            return self.while_stmt(s)
+        if k == "expr" and s[1][0] == "call" and s[1][1] in _CS_DISCARD_OK.get(self.c, ()):
+            self.call(s[1], bind="_")
+            return None
+        return CSFn.stmt(self, s, False)
+
+    def if_stmt(self, s, top):
+        _, c, th, el = s
+        if not th or el == []:
+            raise self.err("empty if / else")
+        cterm = self.cond(c)
+        snap = self.snapshot()
+        if top and el is None and th[-1] == ("return", None):
+            # if (c) { A; return; } at the top level of a void function
+            if self.ret is not None:
+                raise self.err("early return in a function that returns a value")
+            lines, _ = self.block(th[:-1])
+            self.restore(snap)
+            self.early = True
+            self.lines.append(f"  if {cterm} then")
+            self.lines += ["  " + l for l in lines] + ["    @RET@", "  else"]
+            return None
+        la, ra = self.block(th)
+        sa = self.snapshot()
+        self.restore(snap)
+        lb, rb = self.block(el) if el is not None else ([], set())
+        sb = self.snapshot()
+        for v, e in self.env.items():                   # written on both paths
+            if e["uninit"] is not None:
+                e["uninit"] = set(sa[v][0]) | set(sb[v][0])
+                e["assigned"] = sa[v][1] & sb[v][1]
+        vs = [v for v in self.env if v in ra or v in rb]
+        if not vs:
+            raise self.err(f"conditional block without effect: {s!r}")
+        self.lines.append(f"  {self.pat(vs)} <- (if {cterm} then")
+        self.lines += ["    " + l for l in la] + [f"      Ok {self.tup(vs)}", "    else"]
+        self.lines += ["    " + l for l in lb] + [f"      Ok {self.tup(vs)}) ;;"]
+        return None
+
+    def while_stmt(self, s):
+        _, c, body = s
+        ctx = self.ctx
+        self.nloop += 1
+        lname = f"{self.name}_loop{self.nloop}"
+        used = self.vars_in([c, body], [])
+        used = [v for v in self.env if v in used]                     # declaration order
+        for v in used:
+            if self.env[v]["type"][0] == "alias":
+                raise self.err(f"loop {self.nloop}: the pointer {v} is used inside the loop")
+        snap = self.snapshot()
+        saved, self.lines = self.lines, []
+        cterm = self.cond(c)
+        if self.lines:
+            raise self.err(f"loop {self.nloop}: checked arithmetic / a call in the loop condition")
+        self.lines = saved
+        saved_exts, self.exts, n_extras = self.exts, [], len(self.extras)
+        lines, rec = self.block(body)
+        lexts = self.exts
+        self.exts = saved_exts + [x for x in lexts if x not in saved_exts]
+        if len(self.extras) != n_extras:
+            raise self.err(f"loop {self.nloop}: uninitialised struct local inside the loop")
+        self.restore(snap)                                            # the body may not run at all
+        vs = [v for v in self.env if v in rec]
+        if not vs or any(v not in used for v in vs):
+            raise self.err(f"loop {self.nloop}: no effect")
+        sig = [f"(ext_{x} : {ctx.fun_type(ctx.funcs[x])})" for x in lexts] + ["(fuel : nat)"] \
+            + [f"({v} : {ctx.coq_type(self.env[v]['type'])})" for v in used]
+        rtype = " * ".join(ctx.coq_type(self.env[v]["type"]) for v in vs)
+        args = " ".join(["ext_" + x for x in lexts] + ["fuel"] + used)
+        self.loop_defs.append(
+            f"Fixpoint {lname} " + " ".join(sig) + f"\n  : res {rtype if len(vs) == 1 else '(' + rtype + ')'} :=\n"
+            f"  if {cterm} then\n    match fuel with\n    | O => OutOfFuel\n    | S fuel =>\n"
+            + "".join("    " + l + "\n" for l in lines)
+            + f"      {lname} {args}\n    end\n  else Ok {self.tup(vs)}.\n")
+        self.fuel = True
+        for v in vs:
+            self.assigned(v)
+        self.lines.append(f"  {self.pat(vs)} <- {lname} {args} ;;")
+        return None
+
+    def translate(self):
+        ctx = self.ctx
+        stmts = list(self.stmts)
+        last = None
+        if stmts and stmts[-1][0] == "return" and stmts[-1][1] is not None:
+            last = stmts.pop()
+        elif self.ret is not None:
+            raise self.err("no return statement at the end")
+        for s in stmts:
+            self.stmt(s, True)
+        result = self.ret_value(last[1]) if last is not None else None
+        if self.nsite != len(_CS_STACK_SITES.get(self.c, [])):
+            raise self.err(f"{self.nsite} cv_stack accesses, _CS_STACK_SITES lists {len(_CS_STACK_SITES.get(self.c, []))}")
+        for (fn, v), code in _CS_ASSIGN_SITES.items():
+            if fn == self.c and code not in self.sites_used:
+                raise self.err(f"no checked assignment to {v} (_CS_ASSIGN_SITES)")
+        if self.extras:
+            raise self.err("uninitialised struct local with an uninterpreted member")
+        inouts = [i for i, (p, t, const) in enumerate(self.params) if p in self.written]
+        notes = [f"(* {p}: not const in the source, never written *)" for p, t, const in self.params
+                 if t[0] in ("arr", "ptr") and not const and p not in self.written]
+        for p in self.written:
+            if self.env[p]["type"][0] not in ("arr", "ptr"):
+                raise self.err(f"scalar parameter {p} is written")
+        parts = [self.params[i][0] for i in inouts] + ([result] if result is not None else [])
+        f = {"c": self.c, "coq": self.name, "params": self.params, "ret": self.ret, "inouts": inouts,
+             "res": True, "exts": self.exts, "extras": [], "poly": False, "fuel": self.fuel}
+        rt = ctx.result_type(f)
+        final = "Ok " + self.tup(parts)
+        sig = [f"(ext_{x} : {ctx.fun_type(ctx.funcs[x])})" for x in self.exts]
+        if self.fuel:
+            sig.append("(fuel : nat)")
+        sig += [f"({p} : {ctx.coq_type(t)})" for p, t, _ in self.params]
+        ctx.funcs[self.c] = f
+        text = "".join(d + "\n" for d in self.loop_defs) + "".join(n + "\n" for n in notes)
+        text += f"Definition {self.name} " + " ".join(sig) + f"\n  : {rt} :=\n" \
+            + "".join(l.replace("@RET@", final) + "\n" for l in self.lines) + f"  {final}.\n"
+        return text
+
+
+def gen_c_hasher_loops():
+    ctx, _, (h, ih, c) = _c_hasher_small_parts()
+    ctx.interpret_flat()
+    out = [HEADER.replace("Base.MachInt.", "Base.MachInt Base.Word Base.Arr.\n"
+                          "From V Require Import gen.GenConsts gen.GenFormulas gen.GenCHasherSmall.")]
+    out.append("(* blake3_hasher.cv_stack is the flat byte array of c/blake3.h here: the records of GenCHasherSmall.v at\n"
+               "   S := list N.  at_site: the Panic code of a checked operation replaced by the code of the source site it\n"
+               "   belongs to (the site numbering of Model/CHasher.v); not translated from anything. *)\n"
+               "Definition at_site {A : Type} (site : N) (r : res A) : res A :=\n"
+               "  match r with Ok a => Ok a | Panic _ => Panic site | OutOfFuel => OutOfFuel end.\n")
+    (_, flat), = ctx.flat.items()
+    out.append(f"(* uint8_t cv_stack[{flat[2]}] *)\n")
+
+    # called, not translated here
+    ctx.external_from_source(c, "output_root_bytes", r"\bINLINE\s+(void)\s+output_root_bytes\s*\(", True, False)
+    # popcnt(x) = c_popcnt x, chunk_state_len(&s) = c_chunk_state_len s.blocks_compressed s.buf_len (gen_formulas)
+    find1(r"\bINLINE\s+unsigned\s+int\s+popcnt\s*\(\s*uint64_t\s+x\s*\)\s*\{", ih, "popcnt prototype")
+    ctx.funcs["popcnt"] = {"c": "popcnt", "coq": "c_popcnt", "params": [("x", ("int", 64), False)], "ret": ("int", 32),
+                           "inouts": [], "res": True, "exts": [], "extras": [], "poly": False}
+    hdr = r"\bINLINE\s+(size_t)\s+chunk_state_len\s*\("
+    ptext, between = _fn_header(c, hdr, "chunk_state_len")
+    params, ret = ctx.signature("chunk_state_len", ptext, "size_t")
+    body = CSParser(_cs_tokens(fn_body(c, hdr, "chunk_state_len"), "chunk_state_len"), "chunk_state_len",
+                    ctx.typenames()).stmts_until(("eof", None))
+    if between or params != [("self", ("ptr", "blake3_chunk_state"), True)] or len(body) != 1 or body[0][0] != "return":
+        raise AnchorError("chunk_state_len: expected `(const blake3_chunk_state *self) { return e; }`")
+
+    def members(node, acc):
+        if isinstance(node, tuple) and node[:2] == ("arrow", ("var", "self")):
+            acc.append(node[2])
+        elif isinstance(node, tuple) and node == ("var", "self"):
+            acc.append(None)
+        elif isinstance(node, (tuple, list)):
+            for x in node:
+                members(x, acc)
+        return acc
+    if sorted(set(members(body[0][1], [])), key=str) != ["blocks_compressed", "buf_len"]:
+        raise AnchorError("chunk_state_len: reads something other than self->blocks_compressed and self->buf_len")
+    ctx.funcs["chunk_state_len"] = {"c": "chunk_state_len", "coq": "c_chunk_state_len", "params": params, "ret": ret,
+                                    "inouts": [], "res": True, "exts": [], "extras": [], "poly": False,
+                                    "fields": ["blocks_compressed", "buf_len"]}
+
+    out.append("(* ---- c/blake3.c ---- *)\n")
+    for fn in ("chunk_state_update", "hasher_merge_cv_stack", "hasher_push_cv", "blake3_hasher_finalize_seek"):
+        out.append(CSLoopFn(ctx, c, fn).translate())
     return "\n".join(out)
 
 
@@ -5004,6 +5523,1130 @@ def gen_lib_small():
     return "\n".join(out)
 
 
+# ---------------------------------------------------------------------------
+# GenLibLoops.v: the loop-carrying core of the incremental hasher of src/lib.rs, translated statement by statement:
+# ChunkState::count / fill_buf / output / update, Hasher::merge_cv_stack / push_cv / reset / final_output / finalize /
+# finalize_xof / count.  The records, ChunkState::new / start_flag and the constants are GenLibSmall's / GenConsts'.
+#
+# Representation
+#   * every translated function is `lib_<Struct>_<fn>`; its parameters are, in this order: the functions it (or a
+#     callee) calls that are NOT translated here, as explicit parameters ext_<name> (parent_node_output,
+#     Output::chaining_value, Output::root_hash, OutputReader::new); `fuel : nat` when it (or a callee) contains a loop;
+#     `self`; the source's parameters in source order.  The result is the tuple (self after the call when the receiver
+#     is `&mut self`, every `&mut` parameter after the call, the returned value), inside `res` as soon as one statement
+#     can panic.
+#   * `self.f = e` is the record update <Struct>_set_f (generated here: the constructor applied to the other
+#     projections); `self.f op= e` is checked arithmetic at the width of the field.
+#   * integer expressions go through the integer-formula emitter (Base/MachInt.v: +, -, * panic on overflow, `as`
+#     truncates, cmp::min -> mi_min); an expression that is not a variable / field / literal is bound first, in
+#     evaluation order.  `x.len()` of a slice / array / ArrayVec is N.of_nat (length x) at width 64.
+#   * `while c { body }` is a separate `Fixpoint <fn>_loop<k>` on `fuel` whose parameters are the variables in scope at
+#     the loop and whose result is the tuple of the variables the body assigns: evaluate c; if it holds and the fuel is
+#     exhausted the result is OutOfFuel (Base/Res.v), otherwise the body's statements in source order and the recursive
+#     call.  The enclosing function passes its own `fuel` to each of its loops and to the callees that take one.
+#   * `if c { .. } [else { .. }]` binds the tuple of the outer variables either arm assigns; an arm ending in `return e`
+#     (only directly in the function body) makes the rest of the function the else arm.  `let mut v: T;` without
+#     initialiser must be assigned in both arms before it is read.
+#   * slices: `&s[..b]` -> firstn after `assert! (b <=? len) code 41`, `&s[a..]` -> skipn after `assert! (a <=? len)
+#     code 40`, array_ref!(s, off, n) -> arr_slice after `assert! (off + n <=? len) code 54`;
+#     `self.arr[a..][..b].copy_from_slice(src)` -> the two slice checks on the destination (codes 40, 41; the same sites
+#     carry these codes in Model/RsChunk.v), `assert! (len src =? b) code 42`, arr_store at offset a.
+#   * ArrayVec (Base/ArrayVec.v; the vector in index order): len -> av_len, push -> av_push CAP (Panic 51 when full; CAP
+#     is GenConsts' rs_cv_stack_cap, read from the field's type), pop().unwrap() -> av_pop_unwrap (Panic 50),
+#     `&v[i]` -> av_index (Panic 53), clear -> [], is_empty -> av_len = 0.
+#   * debug_assert! / debug_assert_eq! / assert_eq! -> `assert! cond code c`; the codes are the ones the hand-written
+#     models use for the same sites (table _LIB_LOOP_FNS below, one code per macro in source order; the number of macros
+#     in the body must equal the number of codes).
+#   * `self.platform.compress_in_place(&mut self.cv, ..)` -> self.cv := p_compress_in_place platform cv .. (parameter
+#     order anchored in src/platform.rs, as in GenLibSmall).
+# Everything that is not one of these shapes raises AnchorError: no statement is ever skipped.
+# ---------------------------------------------------------------------------
+_L_TOK = re.compile(r"""
+    (?P<ws>\s+)
+  | (?P<num>0[xX][0-9a-fA-F_]+|[0-9][0-9_]*)(?:_?(?:u8|u16|u32|u64|usize))?
+  | (?P<str>"(?:\\.|[^"\\])*")
+  | (?P<id>[A-Za-z_][A-Za-z0-9_]*(?:::[A-Za-z_][A-Za-z0-9_]*)*)
+  | (?P<op>\.\.|\+=|-=|->|==|!=|<=|>=|&&|\|\||<<|>>|[-+*/%&|^!<>=().,\[\]{};:])
+""", re.X)
+_L_SLICE_FROM, _L_SLICE_TO, _L_COPY_LEN, _L_ARRAY_REF = 40, 41, 42, 54
+
+
+def _l_tokens(text, name):
+    out, i = [], 0
+    while i < len(text):
+        m = _L_TOK.match(text, i)
+        if not m:
+            raise AnchorError(f"{name}: cannot tokenize {text[i:i + 20]!r}")
+        i = m.end()
+        if m.group("ws"):
+            continue
+        if m.group("num"):
+            out.append(("num", int(m.group("num").replace("_", ""), 0)))
+        elif m.group("str") is not None:
+            out.append(("str", m.group("str")))
+        elif m.group("id"):
+            out.append(("id", m.group("id")))
+        else:
+            out.append(("op", m.group("op")))
+    return out
+
+
+class LParser:
+    """statements: ('let', mut, name, type | None, init | None) ('assign', op, lhs, rhs) ('expr', e)
+                   ('if', cond, block, block | None) ('while', cond, block) ('return', e); a block is ([statements], tail | None)
+       expressions: the nodes of Parser plus ('ref', mut, e) ('deref', e) ('range', lo | None, hi | None)
+                    ('macro', name, [args]) ('str', text) ('struct', name, [(field, e)]) ('repeat', e, n)"""
+
+    def __init__(self, toks, name, structs):
+        self.t, self.i, self.name, self.structs = toks, 0, name, structs
+
+    def err(self, msg):
+        return AnchorError(f"{self.name}: {msg} at {self.t[self.i:self.i + 6]!r}")
+
+    def peek(self, k=0):
+        return self.t[self.i + k] if self.i + k < len(self.t) else ("eof", None)
+
+    def next(self):
+        tok = self.peek()
+        self.i += 1
+        return tok
+
+    def accept(self, op):
+        if self.peek() == ("op", op):
+            self.i += 1
+            return True
+        return False
+
+    def accept_id(self, word):
+        if self.peek() == ("id", word):
+            self.i += 1
+            return True
+        return False
+
+    def expect(self, op):
+        if not self.accept(op):
+            raise self.err(f"expected {op!r}")
+
+    def ident(self):
+        k, v = self.next()
+        if k != "id" or "::" in v:
+            raise self.err("expected an identifier")
+        return v
+
+    # ---- statements ----
+    def body(self):
+        b = self.stmts(("eof", None))
+        return b
+
+    def block(self):
+        self.expect("{")
+        b = self.stmts(("op", "}"))
+        self.expect("}")
+        return b
+
+    def stmts(self, end):
+        out, tail = [], None
+        while self.peek() != end:
+            if self.peek()[0] == "eof":
+                raise self.err("unexpected end")
+            if tail is not None:
+                raise self.err("expression without ';' in the middle of a block")
+            k, v = self.peek()
+            if (k, v) == ("id", "let"):
+                self.next()
+                mut = self.accept_id("mut")
+                name = self.ident()
+                ty = None
+                if self.accept(":"):
+                    ty = self.ident()
+                init = self.expr(0) if self.accept("=") else None
+                self.expect(";")
+                out.append(("let", mut, name, ty, init))
+            elif (k, v) == ("id", "if"):
+                self.next()
+                c = self.expr(0, nostruct=True)
+                th = self.block()
+                el = None
+                if self.accept_id("else"):
+                    el = self.block()
+                out.append(("if", c, th, el))
+            elif (k, v) == ("id", "while"):
+                self.next()
+                c = self.expr(0, nostruct=True)
+                out.append(("while", c, self.block()))
+            elif (k, v) == ("id", "return"):
+                self.next()
+                e = self.expr(0)
+                self.expect(";")
+                out.append(("return", e))
+            elif k == "id" and v in ("for", "loop", "match", "break", "continue", "unsafe", "fn", "const", "static", "else"):
+                raise self.err(f"statement {v!r} is not translated")
+            else:
+                e = self.expr(0)
+                if self.peek() in (("op", "="), ("op", "+="), ("op", "-=")):
+                    op = self.next()[1]
+                    rhs = self.expr(0)
+                    self.expect(";")
+                    out.append(("assign", op, e, rhs))
+                elif self.accept(";"):
+                    out.append(("expr", e))
+                else:
+                    tail = e
+        return out, tail
+
+    # ---- expressions ----
+    def expr(self, minprec, nostruct=False):
+        lhs = self.unary(nostruct)
+        while True:
+            k, v = self.peek()
+            if (k, v) == ("id", "as"):
+                self.next()
+                ty = self.next()[1]
+                if ty not in TYPES:
+                    raise self.err(f"cast to {ty!r}")
+                lhs = ("cast", TYPES[ty], lhs)
+                continue
+            if k == "op" and v in BIN_PREC and BIN_PREC[v] >= minprec:
+                self.next()
+                rhs = self.expr(BIN_PREC[v] + 1, nostruct)
+                lhs = ("bin", v, lhs, rhs)
+                continue
+            return lhs
+
+    def unary(self, nostruct):
+        if self.accept("!"):
+            return ("un", "!", self.unary(nostruct))
+        if self.accept("&"):
+            mut = self.accept_id("mut")
+            return ("ref", mut, self.unary(nostruct))
+        if self.accept("*"):
+            return ("deref", self.unary(nostruct))
+        if self.peek() == ("op", "-"):
+            raise self.err("unary minus")
+        return self.postfix(self.primary(nostruct))
+
+    def args(self, close):
+        out = []
+        while not self.accept(close):
+            out.append(self.expr(0))
+            if not self.accept(","):
+                self.expect(close)
+                break
+        return out
+
+    def primary(self, nostruct):
+        k, v = self.next()
+        if k == "num":
+            return ("num", v)
+        if k == "str":
+            return ("str", v)
+        if k == "id":
+            if self.peek() == ("op", "!") and self.peek(1) == ("op", "("):
+                self.i += 2
+                return ("macro", v, self.args(")"))
+            if self.accept("("):
+                return ("call", v, self.args(")"))
+            if not nostruct and v in self.structs and self.peek() == ("op", "{"):
+                self.next()
+                fields = []
+                while not self.accept("}"):
+                    f = self.ident()
+                    e = self.expr(0) if self.accept(":") else ("var", f)
+                    fields.append((f, e))
+                    if not self.accept(","):
+                        self.expect("}")
+                        break
+                return ("struct", v, fields)
+            return ("var", v)
+        if (k, v) == ("op", "("):
+            e = self.expr(0)
+            self.expect(")")
+            return e
+        if (k, v) == ("op", "["):
+            e = self.expr(0)
+            self.expect(";")
+            n = self.expr(0)
+            self.expect("]")
+            return ("repeat", e, n)
+        self.i -= 1
+        raise self.err("unexpected token")
+
+    def postfix(self, e):
+        while True:
+            if self.accept("."):
+                m = self.ident()
+                if self.accept("("):
+                    e = ("meth", e, m, self.args(")"))
+                else:
+                    e = ("field", e, m)
+            elif self.accept("["):
+                lo = None if self.peek() == ("op", "..") else self.expr(0)
+                if self.accept(".."):
+                    hi = None if self.peek() == ("op", "]") else self.expr(0)
+                    idx = ("range", lo, hi)
+                else:
+                    idx = lo
+                self.expect("]")
+                e = ("index", e, idx)
+            else:
+                return e
+
+
+class LCtx:
+    """shared by the translated functions: structs (RStruct), constants, signatures.
+    A signature: dict(coq, self = None | 'ref' | 'mut', struct, params = [(name, kind, inout)], ret = kind | None, res,
+    exts = [ext names], fuel).  Kinds: ('int', w) ('arr',) ('slice',) ('struct', S) ('platform',) ('cvstack',)
+    ('ext', T)."""
+
+    def __init__(self, prefix, structs, consts, cap):
+        self.P, self.structs, self.consts, self.cap = prefix, structs, consts, cap
+        self.fns, self.methods, self.exts, self.tyvars = {}, {}, {}, []
+
+    def coq_type(self, k):
+        if k[0] == "int":
+            return "N"
+        if k[0] in ("arr", "slice"):
+            return "list N"
+        if k[0] == "struct":
+            return self.structs[k[1]].coq
+        if k[0] == "platform":
+            return "platform"
+        if k[0] == "cvstack":
+            return "list (list N)"
+        if k[0] == "ext":
+            return k[1]
+        raise AnchorError(f"no Gallina type for {k!r}")
+
+    def field(self, sname, f):
+        for g, k, w in self.structs[sname].fields:
+            if g == f:
+                if k == "word":
+                    return ("int", w)
+                if isinstance(k, tuple):
+                    return k
+                return (k,)
+        return None
+
+    def setters(self, sname):
+        st = self.structs[sname]
+        out = []
+        for f, _, _ in st.fields:
+            args = " ".join("v" if g == f else f"({st.proj(g)} s)" for g, _, _ in st.fields)
+            out.append(f"Definition {st.coq}_set_{f} (s : {st.coq}) (v : {self.coq_type(self.field(sname, f))}) : {st.coq} :=\n"
+                       f"  {st.coq}_mk {args}.\n")
+        return "".join(out)
+
+    def add_ext(self, key, name, params, ret, tyvar=None):
+        """an untranslated function: explicit parameter ext_<name> of every translated function that (transitively) calls it"""
+        if tyvar and tyvar not in self.tyvars:
+            self.tyvars.append(tyvar)
+        ty = " -> ".join([self.coq_type(k) for _, k, _ in params] + [self.coq_type(ret)])
+        self.exts[name] = {"type": ty, "tyvar": tyvar}
+        sig = {"coq": "ext_" + name, "self": None, "struct": None, "params": params, "ret": ret, "res": False,
+               "exts": [name], "fuel": False, "external": True}
+        if isinstance(key, tuple):
+            sig["self"] = "ref"
+            self.methods[key] = sig
+        else:
+            self.fns[key] = sig
+
+
+class LFn:
+    def __init__(self, ctx, impl_text, struct, fname, header_re, codes):
+        self.ctx, self.struct, self.fname = ctx, struct, fname
+        self.name = f"{ctx.P}{struct}_{fname}"
+        ptext, rtext = _fn_header(impl_text, header_re, self.name)
+        self.block = LParser(_l_tokens(fn_body(impl_text, header_re, self.name), self.name), self.name,
+                             set(ctx.structs)).body()
+        self.codes, self.code_i = list(codes), 0
+        self.env, self.params, self.selfmode = {}, [], None
+        self.lines, self.tmp, self.monadic, self.exts, self.fuel, self.loops = [], 0, False, [], False, []
+        self.frame = set()
+        for p in _p_split_top(ptext, ","):
+            p = " ".join(p.split())
+            if p:
+                self.param(p)
+        self.ret = self.ret_kind(" ".join(rtext.split()))
+
+    def err(self, msg):
+        return AnchorError(f"{self.name}: {msg}")
+
+    # ---- signature ----
+    def param(self, p):
+        if p in ("&self", "&mut self"):
+            if self.params or self.selfmode:
+                raise self.err("self is not the first parameter")
+            self.selfmode = "mut" if p == "&mut self" else "ref"
+            self.env["self"] = {"kind": ("struct", self.struct), "mut": self.selfmode == "mut", "uninit": False}
+            return
+        m = re.fullmatch(r"(mut )?(%s)\s*:\s*(.+)" % _IDENT, p)
+        if not m:
+            raise self.err(f"parameter {p!r}")
+        mut, v, ty = bool(m.group(1)), m.group(2), m.group(3).strip()
+        inout = False
+        if ty == "&mut &[u8]":
+            kind, inout, mut = ("slice",), True, True
+        elif ty == "&[u8]":
+            kind = ("slice",)
+        elif ty in ("&CVBytes", "&CVWords"):
+            kind = ("arr",)
+        elif ty in ("u8", "u32", "u64", "usize"):
+            kind = ("int", TYPES[ty])
+        else:
+            raise self.err(f"parameter type {ty!r}")
+        self.declare(v, kind, mut)
+        self.params.append((v, kind, inout))
+
+    def ret_kind(self, r):
+        if r in ("", "-> &mut Self"):
+            if r and self.selfmode != "mut":
+                raise self.err("-> &mut Self without &mut self")
+            return None
+        if r in ("-> u8", "-> u32", "-> u64", "-> usize"):
+            return ("int", TYPES[r[3:]])
+        if r == "-> Hash":
+            return ("arr",)
+        if r[3:] in self.ctx.structs:
+            return ("struct", r[3:])
+        if r == "-> OutputReader":
+            return ("ext", "OutputReader")
+        raise self.err(f"result type {r!r}")
+
+    def declare(self, v, kind, mut, uninit=False):
+        if v in self.env or v in self.ctx.consts or v == "fuel" or re.fullmatch(r"t\d+|ext_.*", v):
+            raise self.err(f"{v} is declared twice, shadows a constant or is a reserved name")
+        self.env[v] = {"kind": kind, "mut": mut, "uninit": uninit}
+
+    # ---- output ----
+    def fresh(self):
+        self.tmp += 1
+        return f"t{self.tmp}"
+
+    def let(self, v, term):
+        self.lines.append(f"let {v} := {term} in")
+
+    def bind(self, v, term):
+        self.monadic = True
+        self.lines.append(f"{v} <- {term} ;;")
+
+    def check(self, cond, code, note=None):
+        self.monadic = True
+        self.lines.append(f"assert! {cond} code {code} ;;" + (f"   (* {note} *)" if note else ""))
+
+    def assigned(self, v):
+        e = self.env.get(v)
+        if e is None or not e["mut"]:
+            raise self.err(f"assignment to {v}, which is not a mutable variable")
+        e["uninit"] = False
+        self.frame.add(v)
+
+    def use_sig(self, sig):
+        for x in sig["exts"]:
+            if x not in self.exts:
+                self.exts.append(x)
+        if sig["fuel"]:
+            self.fuel = True
+
+    # ---- paths: a variable followed by fields -> (root, [fields], term, kind) ----
+    def path(self, ast):
+        if ast[0] == "var":
+            e = self.env.get(ast[1])
+            if e is None:
+                return None
+            if e["uninit"]:
+                raise self.err(f"{ast[1]} is read before it is assigned")
+            return ast[1], [], ast[1], e["kind"]
+        if ast[0] == "field":
+            p = self.path(ast[1])
+            if p is None or p[3][0] != "struct":
+                return None
+            root, fs, term, kind = p
+            k = self.ctx.field(kind[1], ast[2])
+            if k is None:
+                raise self.err(f"struct {kind[1]} has no field {ast[2]}")
+            return root, fs + [ast[2]], f"({self.ctx.structs[kind[1]].proj(ast[2])} {term})", k
+        return None
+
+    def set_path(self, root, fs, value):
+        """root.fs := value"""
+        if not fs:
+            self.let(root, value)
+        else:
+            def upd(term, sname, fs):
+                st = self.ctx.structs[sname]
+                if len(fs) == 1:
+                    return f"{st.coq}_set_{fs[0]} {term} {value}"
+                k = self.ctx.field(sname, fs[0])
+                return f"{st.coq}_set_{fs[0]} {term} ({upd('(' + st.proj(fs[0]) + ' ' + term + ')', k[1], fs[1:])})"
+            self.let(root, upd(root, self.env[root]["kind"][1], fs))
+        self.assigned(root)
+
+    # ---- integer expressions ----
+    def method_sig(self, ast):
+        """('meth', recv, m, args) on a struct-valued path -> (sig, receiver term) or None"""
+        if ast[0] != "meth":
+            return None
+        p = self.path(ast[1])
+        if p is None and ast[1][0] in ("meth", "call") and (self.kind_of(ast[1]) or ("",))[0] == "struct":
+            term, s = self.struct_(ast[1])                  # a call as the receiver: evaluated first
+            p = (None, [], term, ("struct", s))
+        if p is None or p[3][0] != "struct":
+            return None
+        sig = self.ctx.methods.get((p[3][1], ast[2]))
+        if sig is None:
+            raise self.err(f"call of {p[3][1]}::{ast[2]}, which is neither translated nor a declared external")
+        return sig, p[2]
+
+    def len_term(self, ast):
+        p = self.path(ast)
+        if p is None or p[3][0] not in ("slice", "arr", "cvstack"):
+            raise self.err(f"length of {ast!r}")
+        return f"(av_len {p[2]})" if p[3][0] == "cvstack" else f"(N.of_nat (length {p[2]}))"
+
+    def subst(self, ast):
+        """integer expression -> the same expression over ('coq', term, width) / ('coqres', term, width) leaves"""
+        k = ast[0]
+        if k == "num":
+            return ast
+        if k == "var" and ast[1] in self.ctx.consts and ast[1] not in self.env:
+            return ("coq",) + self.ctx.consts[ast[1]]
+        if k in ("var", "field"):
+            p = self.path(ast)
+            if p is None or p[3][0] != "int":
+                raise self.err(f"not an integer: {ast!r}")
+            return ("coq", p[2], p[3][1])
+        if k == "meth" and ast[2] == "len" and not ast[3]:
+            return ("coq", self.len_term(ast[1]), 64)
+        if k == "meth" and ast[2] in METHS and not ast[3]:
+            return ("meth", self.subst(ast[1]), ast[2], [])
+        if k == "meth":
+            ms = self.method_sig(ast)
+            if ms and ms[0]["ret"] and ms[0]["ret"][0] == "int" and ms[0]["self"] == "ref" and not ms[0]["params"] and not ast[3]:
+                sig, recv = ms
+                self.use_sig(sig)
+                if sig["exts"] or sig["fuel"]:
+                    raise self.err(f"integer method {ast[2]} with externals")
+                return ("coqres" if sig["res"] else "coq", f"({sig['coq']} {recv})", sig["ret"][1])
+        if k == "cast":
+            return ("cast", ast[1], self.subst(ast[2]))
+        if k == "bin" and ast[1] in BINOPS:
+            return ("bin", ast[1], self.subst(ast[2]), self.subst(ast[3]))
+        if k == "call" and ast[1] == "cmp::min" and len(ast[2]) == 2:
+            return ("call", ast[1], [self.subst(a) for a in ast[2]])
+        raise self.err(f"cannot translate the integer expression {ast!r}")
+
+    def int_res(self, ast, want):
+        """term of type res N"""
+        self.monadic = True
+        return emit(self.subst(ast), {}, {}, self.name, want)
+
+    def int_atom(self, ast, want):
+        """term of type N; anything but a variable / field / literal is bound first"""
+        s = self.subst(ast)
+        w = width_of(s, {})
+        if w is not None and want is not None and w != want:
+            raise self.err(f"{ast!r} has width {w}, expected {want}")
+        if s[0] == "num":
+            if want is not None and s[1] >= (1 << want):
+                raise self.err(f"literal {s[1]} does not fit {want} bits")
+            return str(s[1])
+        if s[0] == "coq":
+            return s[1]
+        v = self.fresh()
+        self.bind(v, emit(s, {}, {}, self.name, want))
+        return v
+
+    def cond(self, ast):
+        """term of type res bool"""
+        self.monadic = True
+        if ast[0] == "bin" and (ast[1] in CMPOPS or ast[1] in (">", ">=")):
+            return emit_bool(("bin", ast[1], self.subst(ast[2]), self.subst(ast[3])), {}, {}, self.name)
+        if ast[0] == "un" and ast[1] == "!":
+            return f"(b <- {self.cond(ast[2])} ;; Ok (negb b))"
+        if ast[0] == "meth" and ast[2] == "is_empty" and not ast[3]:
+            return f"(mcmp N.eqb (Ok {self.len_term(ast[1])}) (Ok 0))"
+        raise self.err(f"condition {ast!r}")
+
+    # ---- array / struct / platform valued expressions ----
+    def named(self, term):
+        if re.fullmatch(r"[\w']+", term):
+            return term
+        v = self.fresh()
+        self.let(v, term)
+        return v
+
+    def arr(self, ast):
+        """term of type list N (bounds checks and binds are emitted first)"""
+        k = ast[0]
+        if k == "ref":
+            return self.arr(ast[2])
+        if k == "deref" and ast[1][0] == "var":
+            p = self.path(ast[1])
+            if p and p[3] == ("arr",):
+                return p[2]
+        if k in ("var", "field"):
+            p = self.path(ast)
+            if p and p[3][0] in ("arr", "slice"):
+                return p[2]
+        if k == "index" and ast[2][0] == "range":
+            p = self.path(ast[1])
+            lo, hi = ast[2][1], ast[2][2]
+            if p and p[3][0] in ("slice", "arr"):
+                ln = f"(N.of_nat (length {p[2]}))"
+                if lo is None and hi is not None:
+                    b = self.int_atom(hi, 64)
+                    self.check(f"({b} <=? {ln})", _L_SLICE_TO, "[..b]")
+                    return f"(firstn (N.to_nat {b}) {p[2]})"
+                if lo is not None and hi is None:
+                    a = self.int_atom(lo, 64)
+                    self.check(f"({a} <=? {ln})", _L_SLICE_FROM, "[a..]")
+                    return f"(skipn (N.to_nat {a}) {p[2]})"
+        if k == "index" and ast[2][0] != "range":
+            p = self.path(ast[1])
+            if p and p[3] == ("cvstack",):
+                i = self.int_atom(ast[2], 64)
+                v = self.fresh()
+                self.bind(v, f"av_index {p[2]} {i}")
+                return v
+        if k == "macro" and ast[1] == "array_ref" and len(ast[2]) == 3:
+            p = self.path(ast[2][0])
+            if p and p[3][0] in ("slice", "arr"):
+                off, n = self.int_atom(ast[2][1], 64), self.int_atom(ast[2][2], 64)
+                self.check(f"({off} + {n} <=? N.of_nat (length {p[2]}))", _L_ARRAY_REF, "array_ref!")
+                return f"(arr_slice {p[2]} (N.to_nat {off}) (N.to_nat {n}))"
+        if k == "repeat" and ast[1] == ("num", 0):
+            return f"(repeat 0 (N.to_nat {self.int_atom(ast[2], 64)}))"
+        if k == "meth":
+            ms = self.method_sig(ast)
+            if ms and ms[0]["ret"] == ("arr",):
+                term, res = self.call(ms[0], ms[1], ast[3])
+                return self.value_of(term, res)
+        raise self.err(f"cannot translate the array expression {ast!r}")
+
+    def value_of(self, term, res):
+        if res:
+            v = self.fresh()
+            self.bind(v, term)
+            return v
+        return f"({term})"
+
+    def struct_(self, ast, want=None):
+        """(term, struct name)"""
+        k = ast[0]
+        term = None
+        if k in ("var", "field"):
+            p = self.path(ast)
+            if p and p[3][0] == "struct":
+                term, s = p[2], p[3][1]
+        elif k == "call" and ast[1] in self.ctx.fns and (self.ctx.fns[ast[1]]["ret"] or ("",))[0] == "struct":
+            sig = self.ctx.fns[ast[1]]
+            t, res = self.call(sig, None, ast[2])
+            term, s = self.value_of(t, res), sig["ret"][1]
+        elif k == "meth":
+            ms = self.method_sig(ast)
+            if ms and (ms[0]["ret"] or ("",))[0] == "struct":
+                t, res = self.call(ms[0], ms[1], ast[3])
+                term, s = self.value_of(t, res), ms[0]["ret"][1]
+        elif k == "struct":
+            s = ast[1]
+            st = self.ctx.structs[s]
+            given = dict(ast[2])
+            if len(given) != len(ast[2]) or set(given) != {f for f, _, _ in st.fields}:
+                raise self.err(f"struct literal {s}: fields {[f for f, _ in ast[2]]}")
+            vals = {}
+            for f, e in ast[2]:                              # evaluation order: as written
+                vals[f] = self.value(e, self.ctx.field(s, f))
+            term = "(" + " ".join([st.coq + "_mk"] + [vals[f] for f, _, _ in st.fields]) + ")"
+        if term is None:
+            raise self.err(f"cannot translate the struct expression {ast!r}")
+        if want is not None and s != want:
+            raise self.err(f"{ast!r} is a {s}, expected {want}")
+        return term, s
+
+    def value(self, ast, kind):
+        if kind[0] == "int":
+            return self.int_atom(ast, kind[1])
+        if kind[0] in ("arr", "slice"):
+            return self.arr(ast)
+        if kind[0] == "struct":
+            return self.struct_(ast, kind[1])[0]
+        if kind[0] == "platform":
+            p = self.path(ast)
+            if p and p[3] == ("platform",):
+                return p[2]
+        raise self.err(f"cannot translate {ast!r} as a {kind!r}")
+
+    def kind_of(self, ast):
+        """kind of the value of an initialiser, from its head"""
+        k = ast[0]
+        if k in ("var", "field"):
+            p = self.path(ast)
+            if p:
+                return p[3]
+        if k == "call" and ast[1] in self.ctx.fns:
+            return self.ctx.fns[ast[1]]["ret"]
+        if k == "meth":
+            p = self.path(ast[1])
+            if p and p[3][0] == "struct" and (p[3][1], ast[2]) in self.ctx.methods:
+                return self.ctx.methods[(p[3][1], ast[2])]["ret"]
+        if k == "struct":
+            return ("struct", ast[1])
+        if k in ("ref", "deref", "repeat") or (k == "index") or (k == "macro" and ast[1] == "array_ref"):
+            return ("arr",)
+        s = self.subst(ast)
+        return ("int", width_of(s, {}))
+
+    # ---- calls ----
+    def call(self, sig, recv, args):
+        """(term, is it in res); the caller binds the result"""
+        if len(args) != len(sig["params"]):
+            raise self.err(f"call of {sig['coq']}: {len(args)} arguments for {len(sig['params'])} parameters")
+        if any(io for _, _, io in sig["params"]) or sig["self"] == "mut":
+            raise self.err(f"call of {sig['coq']} inside an expression writes through its arguments")
+        self.use_sig(sig)
+        terms = [self.value(a, k) for a, (_, k, _) in zip(args, sig["params"])]
+        return self.call_term(sig, recv, terms), sig["res"]
+
+    def call_term(self, sig, recv, terms):
+        head = [sig["coq"]]
+        if not sig.get("external"):
+            head += ["ext_" + x for x in sig["exts"]] + (["fuel"] if sig["fuel"] else [])
+        return " ".join(head + ([recv] if recv is not None else []) + terms)
+
+    def call_stmt(self, sig, args):
+        """self.m(args) with a `&mut self` receiver, as a statement"""
+        if sig["self"] != "mut" or sig["ret"] is not None:
+            raise self.err(f"call of {sig['coq']} as a statement")
+        if len(args) != len(sig["params"]):
+            raise self.err(f"call of {sig['coq']}: {len(args)} arguments for {len(sig['params'])} parameters")
+        self.use_sig(sig)
+        terms, outs = [], ["self"]
+        for a, (_, k, io) in zip(args, sig["params"]):
+            if io:
+                if not (a[0] == "ref" and a[1] and a[2][0] == "var" and self.env.get(a[2][1], {}).get("kind") == k
+                        and self.env[a[2][1]]["mut"]):
+                    raise self.err(f"call of {sig['coq']}: argument {a!r} for a &mut parameter")
+                terms.append(self.path(a[2])[2])
+                outs.append(a[2][1])
+            else:
+                terms.append(self.value(a, k))
+        pat = outs[0] if len(outs) == 1 else "'(" + ", ".join(outs) + ")"
+        term = self.call_term(sig, "self", terms)
+        if sig["res"]:
+            self.bind(pat, term)
+        else:
+            self.let(pat, term)
+        for v in outs:
+            self.assigned(v)
+
+    # ---- statements ----
+    def next_code(self):
+        if self.code_i >= len(self.codes):
+            raise self.err("more assertion macros than Panic codes in the table")
+        self.code_i += 1
+        return self.codes[self.code_i - 1]
+
+    def place(self, ast):
+        """a sub-slice of an array field of self -> (root, fields, current array term, offset : N or None, length : N)"""
+        if ast[0] == "index" and ast[2][0] == "range":
+            root, fs, base, off, ln = self.place(ast[1])
+            lo, hi = ast[2][1], ast[2][2]
+            if lo is not None and hi is None:
+                a = self.int_atom(lo, 64)
+                self.check(f"({a} <=? {ln})", _L_SLICE_FROM, "[a..]")
+                return root, fs, base, a if off is None else f"({off} + {a})", f"({ln} - {a})"
+            if lo is None and hi is not None:
+                b = self.int_atom(hi, 64)
+                self.check(f"({b} <=? {ln})", _L_SLICE_TO, "[..b]")
+                return root, fs, base, off, b
+            raise self.err(f"range {ast!r}")
+        p = self.path(ast)
+        if p and p[3] == ("arr",) and p[1] and self.env[p[0]]["mut"]:
+            return p[0], p[1], p[2], None, f"(N.of_nat (length {p[2]}))"
+        raise self.err(f"not a mutable array place: {ast!r}")
+
+    def stmt(self, s, top):
+        k = s[0]
+        if k == "let":
+            _, mut, v, ty, init = s
+            if init is None:
+                if ty not in self.ctx.structs:
+                    raise self.err(f"declaration of {v} without initialiser")
+                return self.declare(v, ("struct", ty), mut, uninit=True)
+            if ty is not None:
+                raise self.err(f"let {v}: type annotation with an initialiser")
+            # let x = self.cv_stack.pop().unwrap()
+            if init[0] == "meth" and init[2] == "unwrap" and not init[3] and init[1][0] == "meth" and init[1][2] == "pop" \
+                    and not init[1][3]:
+                p = self.path(init[1][1])
+                if not p or p[3] != ("cvstack",):
+                    raise self.err(f"pop() on {init[1][1]!r}")
+                t = self.fresh()
+                self.bind(f"'({t}, {v})", f"av_pop_unwrap {p[2]}")
+                self.set_path(p[0], p[1], t)
+                return self.declare(v, ("arr",), mut)
+            kind = self.kind_of(init)
+            if kind is None:
+                raise self.err(f"let {v} = {init!r}: no value")
+            if kind[0] == "int":
+                if kind[1] is None:
+                    raise self.err(f"cannot infer the type of {v}")
+                if self.subst(init)[0] == "coq":
+                    self.let(v, self.int_atom(init, kind[1]))
+                else:
+                    self.bind(v, self.int_res(init, kind[1]))
+            else:
+                term = self.value(init, kind)
+                self.let(v, term)
+            return self.declare(v, kind, mut)
+        if k == "assign":
+            return self.assign(s)
+        if k == "expr":
+            return self.expr_stmt(s[1])
+        if k == "if":
+            return self.if_stmt(s)
+        if k == "while":
+            return self.while_stmt(s)
+        raise self.err(f"statement {s!r} in this position")
+
+    def assign(self, s):
+        _, op, lhs, rhs = s
+        if lhs[0] == "deref" and lhs[1][0] == "var" and self.env.get(lhs[1][1], {}).get("kind") == ("slice",):
+            lhs = lhs[1]                                  # `*input = ..` through a `&mut &[u8]` parameter
+        p = self.path(lhs) if not (lhs[0] == "var" and self.env.get(lhs[1], {}).get("uninit")) else \
+            (lhs[1], [], lhs[1], self.env[lhs[1]]["kind"])
+        if p is None:
+            raise self.err(f"assignment to {lhs!r}")
+        root, fs, cur, kind = p
+        if not self.env[root]["mut"]:
+            raise self.err(f"assignment to {root}, which is not mutable")
+        if kind[0] == "int":
+            if op == "=":
+                s2 = self.subst(rhs)
+                if s2[0] in ("num", "coq"):
+                    val = self.int_atom(rhs, kind[1])
+                else:
+                    val = self.fresh()
+                    self.bind(val, emit(s2, {}, {}, self.name, kind[1]))
+            else:
+                val = self.fresh()
+                e = ("bin", op[0], ("coq", cur, kind[1]), self.subst(rhs))
+                w = width_of(e[3], {})
+                if w is not None and w != kind[1]:
+                    raise self.err(f"{lhs!r} {op} {rhs!r}: operand widths")
+                self.bind(val, emit(e, {}, {}, self.name, kind[1]))
+            return self.set_path(root, fs, val)
+        if op != "=":
+            raise self.err(f"{op} on a non-integer")
+        if kind[0] == "struct":
+            return self.set_path(root, fs, self.struct_(rhs, kind[1])[0])
+        if kind[0] in ("arr", "slice"):
+            return self.set_path(root, fs, self.arr(rhs))
+        raise self.err(f"assignment to {lhs!r}")
+
+    def expr_stmt(self, e):
+        if e[0] == "macro" and e[1] in ("debug_assert", "debug_assert_eq", "assert_eq", "assert"):
+            args = [a for a in e[2]]
+            if args and args[-1][0] == "str":
+                args.pop()                                   # the panic message
+            code = self.next_code()
+            if e[1].endswith("_eq") and len(args) == 2:
+                c = self.cond(("bin", "==", args[0], args[1]))
+            elif not e[1].endswith("_eq") and len(args) == 1:
+                c = self.cond(args[0])
+            else:
+                raise self.err(f"{e[1]}! with {len(args)} arguments")
+            t = self.fresh()
+            self.bind(t, c)
+            return self.check(t, code, e[1] + "!")
+        if e[0] == "meth":
+            recv, m, args = e[1], e[2], e[3]
+            if m == "copy_from_slice" and len(args) == 1:
+                root, fs, base, off, ln = self.place(recv)
+                src = self.named(self.arr(args[0]))
+                self.check(f"(N.of_nat (length {src}) =? {ln})", _L_COPY_LEN, "copy_from_slice")
+                return self.set_path(root, fs, f"(arr_store {base} (N.to_nat {off or '0'}) {src})")
+            p = self.path(recv)
+            if p and p[3] == ("cvstack",) and m == "push" and len(args) == 1:
+                x = self.arr(args[0])
+                t = self.fresh()
+                self.bind(t, f"av_push {self.ctx.cap} {p[2]} {x}")
+                return self.set_path(p[0], p[1], t)
+            if p and p[3] == ("cvstack",) and m == "clear" and not args:
+                return self.set_path(p[0], p[1], "[]")
+            if p and p[3] == ("platform",) and m in self.ctx.platform_methods:
+                f = self.ctx.platform_methods[m]
+                if not (isinstance(f["ret"], tuple) and f["ret"][0] == "inplace") or len(args) != len(f["params"]):
+                    raise self.err(f"platform call {m}")
+                mi = f["ret"][1]
+                a = args[mi]
+                q = self.path(a[2]) if a[0] == "ref" and a[1] else None
+                if not q or q[3] != ("arr",) or not q[1]:
+                    raise self.err(f"platform call {m}: argument {a!r}")
+                terms = []
+                for i, (x, kd) in enumerate(zip(args, f["params"])):
+                    if i == mi:
+                        terms.append(q[2])
+                    else:
+                        terms.append(self.value(x, ("arr",) if kd == "arr" else ("int", f["widths"][i])))
+                return self.set_path(q[0], q[1], "(" + " ".join([f["coq"], p[2]] + terms) + ")")
+            if p and p[0] == "self" and not p[1] and (self.struct, m) in self.ctx.methods:
+                return self.call_stmt(self.ctx.methods[(self.struct, m)], args)
+        raise self.err(f"expression statement {e!r}")
+
+    # ---- blocks ----
+    def sub_block(self, stmts, tail_ok=False):
+        """translate statements in a fresh frame -> (lines, outer variables assigned, in declaration order)"""
+        saved_lines, saved_frame, outer = self.lines, self.frame, list(self.env)
+        self.lines, self.frame = [], set()
+        for s in stmts:
+            self.stmt(s, False)
+        lines, frame = self.lines, self.frame
+        for v in list(self.env):
+            if v not in outer:
+                del self.env[v]                              # block-local variables go out of scope
+        self.lines, self.frame = saved_lines, saved_frame
+        return lines, [v for v in outer if v in frame]
+
+    def tuple_of(self, vs):
+        return "tt" if not vs else vs[0] if len(vs) == 1 else "(" + ", ".join(vs) + ")"
+
+    def pat_of(self, vs):
+        return "_" if not vs else vs[0] if len(vs) == 1 else "'(" + ", ".join(vs) + ")"
+
+    def if_stmt(self, s):
+        _, c, (th, th_tail), el = s
+        if th_tail is not None or (el is not None and el[1] is not None):
+            raise self.err("if block with a value")
+        t = self.fresh()
+        self.bind(t, self.cond(c))
+        before = {v: dict(e) for v, e in self.env.items()}
+        th_lines, th_vars = self.sub_block(th)
+        after_th = {v: e["uninit"] for v, e in self.env.items()}
+        for v, e in before.items():
+            self.env[v]["uninit"] = e["uninit"]
+        el_lines, el_vars = self.sub_block(el[0]) if el is not None else ([], [])
+        vs = [v for v in self.env if v in th_vars or v in el_vars]
+        for v in vs:
+            if before[v]["uninit"] and (after_th[v] or self.env[v]["uninit"]):
+                raise self.err(f"{v} is not assigned in both arms of the if")
+            self.env[v]["uninit"] = False
+            self.frame.add(v)
+        ret = f"Ok {self.tuple_of(vs)}"
+        self.lines.append(f"{self.pat_of(vs)} <- (if ({t} : bool) then")
+        self.lines += ["    " + l for l in th_lines] + ["    " + ret, "  else"]
+        self.lines += ["    " + l for l in el_lines] + ["    " + ret + ") ;;"]
+
+    def while_stmt(self, s):
+        _, c, (body, tail) = s
+        if tail is not None:
+            raise self.err("loop body with a value")
+        for v, e in self.env.items():
+            if e["uninit"]:
+                raise self.err(f"{v} is not initialised at the loop")
+        scope = [(v, self.ctx.coq_type(e["kind"])) for v, e in self.env.items()]
+        saved_lines, saved_frame = self.lines, self.frame
+        self.lines, self.frame = [], set()
+        t = self.fresh()
+        self.bind(t, self.cond(c))
+        head = self.lines
+        self.lines = saved_lines
+        self.frame = saved_frame
+        body_lines, vs = self.sub_block(body)
+        if not vs:
+            raise self.err("loop body assigns nothing")
+        lname = f"{self.name}_loop{len(self.loops) + 1}"
+        rty = " * ".join(self.ctx.coq_type(self.env[v]["kind"]) for v in vs)
+        text = (f"Fixpoint {lname} @EXTS@(fuel : nat) " + " ".join(f"({v} : {ty})" for v, ty in scope)
+                + f"\n  : res ({rty}) :=\n" + "".join("  " + l + "\n" for l in head)
+                + f"  if ({t} : bool) then\n    match fuel with\n    | O => OutOfFuel\n    | S fuel =>\n"
+                + "".join("      " + l + "\n" for l in body_lines)
+                + f"      {lname} @EXTARGS@fuel " + " ".join(v for v, _ in scope) + "\n    end\n"
+                + f"  else Ok {self.tuple_of(vs)}.\n")
+        self.loops.append(text)
+        self.fuel = True
+        self.bind(self.pat_of(vs), f"{lname} @EXTARGS@fuel " + " ".join(v for v, _ in scope))
+        for v in vs:
+            self.assigned(v)
+
+    def result(self, tail):
+        parts = (["self"] if self.selfmode == "mut" else []) + [v for v, _, io in self.params if io]
+        for v in parts:
+            if self.env[v]["uninit"]:
+                raise self.err(f"{v} is not initialised at the end")
+        if self.ret is None:
+            if tail is not None and not (tail == ("var", "self") and self.selfmode == "mut"):
+                raise self.err(f"result expression {tail!r}")
+        else:
+            if tail is None:
+                raise self.err("no result expression")
+            if self.ret[0] == "int":
+                s = self.subst(tail)
+                if s[0] in ("num", "coq"):
+                    parts.append(self.int_atom(tail, self.ret[1]))
+                else:
+                    v = self.fresh()
+                    self.bind(v, emit(s, {}, {}, self.name, self.ret[1]))
+                    parts.append(v)
+            elif self.ret[0] == "ext":
+                if not (tail[0] == "call" and tail[1] in self.ctx.fns and self.ctx.fns[tail[1]]["ret"] == self.ret):
+                    raise self.err(f"result expression {tail!r}")
+                t, res = self.call(self.ctx.fns[tail[1]], None, tail[2])
+                parts.append(self.value_of(t, res))
+            else:
+                parts.append(self.value(tail, self.ret))
+        if not parts:
+            raise self.err("neither a result nor a written parameter")
+        return self.tuple_of(parts)
+
+    def translate(self):
+        ctx = self.ctx
+        stmts, tail = self.block
+        early = []                                           # (bound condition, lines of the arm, its result)
+        for i, s in enumerate(stmts):
+            if s[0] == "if" and s[3] is None and s[2][1] is None and s[2][0] and s[2][0][-1][0] == "return":
+                # if c { ..; return e; }  -> the rest of the function is the else arm
+                t = self.fresh()
+                self.bind(t, self.cond(s[1]))
+                lines, vs = self.sub_block(s[2][0][:-1])
+                if vs:
+                    raise self.err("assignments before an early return")
+                saved = self.lines
+                self.lines = []
+                r = self.result(s[2][0][-1][1])
+                arm = lines + self.lines
+                self.lines = saved
+                self.lines.append(f"if ({t} : bool) then (")
+                self.lines += ["    " + l for l in arm] + [f"    Ok {r})", "else"]
+            else:
+                self.stmt(s, True)
+        r = self.result(tail)
+        if self.code_i != len(self.codes):
+            raise self.err(f"{self.code_i} assertion macros in the body, {len(self.codes)} Panic codes in the table")
+        parts = ([("struct", self.struct)] if self.selfmode == "mut" else []) + [k for _, k, io in self.params if io] \
+            + ([self.ret] if self.ret is not None else [])
+        rty = " * ".join(ctx.coq_type(k) for k in parts)
+        if self.monadic:
+            rty = f"res ({rty})" if " " in rty else f"res {rty}"
+        self.exts = [x for x in ctx.exts if x in self.exts]              # declaration order
+        ext_sig = "".join(f"(ext_{x} : {ctx.exts[x]['type']}) " for x in self.exts)
+        tyvars = [ctx.exts[x]["tyvar"] for x in self.exts if ctx.exts[x]["tyvar"]]
+        ty_sig = "".join(f"{{{t} : Type}} " for t in dict.fromkeys(tyvars))
+        ext_args = "".join(f"ext_{x} " for x in self.exts)
+        sig = ty_sig + ext_sig + ("(fuel : nat) " if self.fuel else "")
+        if self.selfmode:
+            sig += f"(self : {ctx.structs[self.struct].coq}) "
+        sig += " ".join(f"({v} : {ctx.coq_type(k)})" for v, k, _ in self.params)
+        text = "".join(l.replace("@EXTS@", ty_sig + ext_sig).replace("@EXTARGS@", ext_args) + "\n" for l in self.loops)
+        body = "".join("  " + l.replace("@EXTARGS@", ext_args) + "\n" for l in self.lines)
+        text += f"Definition {self.name} {sig.rstrip()}\n  : {rty} :=\n{body}  {'Ok ' if self.monadic else ''}{r}.\n"
+        self.sig = {"coq": self.name, "self": self.selfmode, "struct": self.struct, "params": self.params, "ret": self.ret,
+                    "res": self.monadic, "exts": self.exts, "fuel": self.fuel}
+        return text
+
+
+# (struct, function, Panic codes of its debug_assert! / debug_assert_eq! / assert_eq! macros in source order: the codes
+#  Model/RsChunk.v / Model/RsHasher.v give the same sites; 1406 = debug_assert!(self.cv_stack.len() >= 2), which the model
+#  leaves to the index panic that follows it)
+_LIB_LOOP_FNS = [("ChunkState", "count", []), ("ChunkState", "fill_buf", []), ("ChunkState", "output", []),
+                 ("ChunkState", "update", [1302, 1301, 1303, 1304]),
+                 ("Hasher", "merge_cv_stack", []), ("Hasher", "push_cv", []), ("Hasher", "reset", []),
+                 ("Hasher", "final_output", [1404, 1405, 1406]), ("Hasher", "finalize", [22]),
+                 ("Hasher", "finalize_xof", [22]), ("Hasher", "count", [])]
+
+
+def gen_lib_loops():
+    out = [HEADER.replace("NArith List.", "NArith List Bool.").replace(
+        "Base.MachInt.", "Base.MachInt Base.Word Base.Arr Base.ArrayVec.\n"
+        "From V Require Import gen.GenConsts Model.Platform gen.GenLibSmall.")]
+    lib = strip_comments(src("src/lib.rs"))
+    plat = strip_comments(src("src/platform.rs"))
+    P = "lib_"
+    find1(r"\btype\s+CVWords\s*=\s*\[\s*u32\s*;\s*8\s*\]\s*;", lib, "lib.rs type CVWords = [u32; 8]")
+    find1(r"\btype\s+CVBytes\s*=\s*\[\s*u8\s*;\s*32\s*\]\s*;", lib, "lib.rs type CVBytes = [u8; 32]")
+    find1(r"\buse\s+core::cmp\s*;", lib, "lib.rs use core::cmp")
+    find1(r"\buse\s+arrayvec::\{[^}]*\bArrayVec\b[^}]*\}\s*;", lib, "lib.rs use arrayvec::ArrayVec")
+    find1(r"cv_stack\s*:\s*ArrayVec<\s*CVBytes\s*,\s*\{(.*?)\}\s*>", lib, "Hasher.cv_stack: ArrayVec<CVBytes, {..}>")
+    cenv = {"BLOCK_LEN": "rs_BLOCK_LEN", "OUT_LEN": "rs_OUT_LEN", "KEY_LEN": "rs_KEY_LEN", "CHUNK_LEN": "rs_CHUNK_LEN"}
+    consts = {}
+    for c in ("BLOCK_LEN", "OUT_LEN", "KEY_LEN", "CHUNK_LEN"):
+        find1(r"\bconst\s+" + c + r"\s*:\s*usize\s*=", lib, "lib.rs " + c + ": usize")
+        consts[c] = ("rs_" + c, 64)
+    for c in ("CHUNK_START", "CHUNK_END", "PARENT", "ROOT", "KEYED_HASH", "DERIVE_KEY_CONTEXT", "DERIVE_KEY_MATERIAL"):
+        find1(r"\bconst\s+" + c + r"\s*:\s*u8\s*=", lib, "lib.rs " + c + ": u8")
+        cenv[c] = "rs_flag_" + c
+        consts[c] = ("rs_flag_" + c, 8)
+    structs = {}
+    for s in ("Output", "ChunkState"):
+        structs[s] = RStruct(lib, s, P, cenv)
+    structs["Hasher"] = RStruct(lib, "Hasher", P, cenv, structs)
+    ctx = LCtx(P, structs, consts, "rs_cv_stack_cap")
+    pimpl = fn_body(plat, r"\bimpl\s+Platform\s*\{", "impl Platform")
+    tail_params = ["block: &[u8; BLOCK_LEN]", "block_len: u8", "counter: u64", "flags: u8"]
+    ctx.platform_methods = {
+        "compress_in_place": _platform_method(pimpl, "compress_in_place", ["&self", "cv: &mut CVWords"] + tail_params, "",
+                                              "p_compress_in_place", ("inplace", 0))}
+
+    # translated in GenLibSmall.v (same run, same text): ChunkState::new, ChunkState::start_flag
+    cs_impl = fn_body(lib, r"\bimpl\s+ChunkState\s*\{", "impl ChunkState")
+    h_impl = fn_body(lib, r"\bimpl\s+Hasher\s*\{", "impl Hasher")
+    small_fns = {"Hash": {"ret": "newtype"}}
+    f = RFn(P + "ChunkState_new", cs_impl, r"\bfn\s+new\s*\(", {}, cenv, small_fns, structs, None, {}, {}, impl_struct="ChunkState")
+    f.translate()
+    if f.sig["params"] != ["arr", "word", "word", "platform"] or f.sig["widths"][1:3] != [64, 8]:
+        raise AnchorError(f"ChunkState::new: parameters {f.sig['params']!r}")
+    ctx.fns["ChunkState::new"] = {"coq": P + "ChunkState_new", "self": None, "struct": None,
+                                  "params": [("key", ("arr",), False), ("chunk_counter", ("int", 64), False),
+                                             ("flags", ("int", 8), False), ("platform", ("platform",), False)],
+                                  "ret": ("struct", "ChunkState"), "res": False, "exts": [], "fuel": False}
+    f = RFn(P + "ChunkState_start_flag", cs_impl, r"\bfn\s+start_flag\s*\(", {}, cenv, small_fns, structs, "ChunkState", {}, {},
+            impl_struct="ChunkState")
+    f.translate()
+    if f.sig["ret"] != "res" or f.ret != "-> u8":
+        raise AnchorError("ChunkState::start_flag: result")
+    ctx.methods[("ChunkState", "start_flag")] = {"coq": P + "ChunkState_start_flag", "self": "ref", "struct": "ChunkState",
+                                                 "params": [], "ret": ("int", 8), "res": True, "exts": [], "fuel": False}
+
+    # called, not translated here: explicit parameters (their signatures are the source's)
+    def anchored(text, hdr, want_params, want_ret, what):
+        ptext, rtext = _fn_header(text, hdr, what)
+        got = [" ".join(a.split()) for a in _args(ptext)]
+        if got != want_params or " ".join(rtext.split()) != want_ret:
+            raise AnchorError(f"{what}: signature {got!r} {rtext!r}")
+    anchored(lib, r"\bfn\s+parent_node_output\s*\(",
+             ["left_child: &CVBytes", "right_child: &CVBytes", "key: &CVWords", "flags: u8", "platform: Platform"],
+             "-> Output", "parent_node_output")
+    ctx.add_ext("parent_node_output", "parent_node_output",
+                [("left_child", ("arr",), False), ("right_child", ("arr",), False), ("key", ("arr",), False),
+                 ("flags", ("int", 8), False), ("platform", ("platform",), False)], ("struct", "Output"))
+    o_impl = fn_body(lib, r"\bimpl\s+Output\s*\{", "impl Output")
+    anchored(o_impl, r"\bfn\s+chaining_value\s*\(", ["&self"], "-> CVBytes", "Output::chaining_value")
+    ctx.add_ext(("Output", "chaining_value"), "Output_chaining_value", [], ("arr",))
+    ctx.methods[("Output", "chaining_value")]["params"] = []
+    ctx.exts["Output_chaining_value"]["type"] = f"{structs['Output'].coq} -> list N"
+    anchored(o_impl, r"\bfn\s+root_hash\s*\(", ["&self"], "-> Hash", "Output::root_hash")
+    ctx.add_ext(("Output", "root_hash"), "Output_root_hash", [], ("arr",))
+    ctx.exts["Output_root_hash"]["type"] = f"{structs['Output'].coq} -> res (list N)"
+    ctx.methods[("Output", "root_hash")]["res"] = True
+    r_impl = fn_body(lib, r"\bimpl\s+OutputReader\s*\{", "impl OutputReader")
+    anchored(r_impl, r"\bfn\s+new\s*\(", ["inner: Output"], "-> Self", "OutputReader::new")
+    ctx.add_ext("OutputReader::new", "OutputReader_new", [("inner", ("struct", "Output"), False)],
+                ("ext", "OutputReader"), tyvar="OutputReader")
+
+    out.append("(* ---- record updates for `self.field = e` ---- *)\n")
+    for s in ("ChunkState", "Hasher"):
+        out.append(ctx.setters(s))
+    for s, impl, title in (("ChunkState", cs_impl, "impl ChunkState"), ("Hasher", h_impl, "impl Hasher")):
+        out.append(f"(* ---- src/lib.rs: {title} ---- *)\n")
+        for st, fname, codes in _LIB_LOOP_FNS:
+            if st != s:
+                continue
+            f = LFn(ctx, impl, s, fname, r"\bfn\s+" + fname + r"\s*\(", codes)
+            out.append(f.translate())
+            ctx.methods[(s, fname)] = f.sig
+    return "\n".join(out)
+
+
 def write_if_changed(path, text):
     try:
         with open(path) as f:
@@ -5119,7 +6762,8 @@ GENERATORS = [("GenConsts.v", gen_consts), ("GenFormulas.v", gen_formulas), ("Ge
               ("GenDispatch.v", gen_dispatch),
               ("GenAsmFrames.v", gen_asm_frames),
               ("GenApi.v", gen_api), ("GenB3sum.v", gen_b3sum_literals), ("GenPortable.v", gen_portable), ("GenCHasherSmall.v", gen_c_hasher_small),
-              ("GenRefImpl.v", gen_refimpl), ("GenLibSmall.v", gen_lib_small),
+              ("GenCHasherLoops.v", gen_c_hasher_loops),
+              ("GenRefImpl.v", gen_refimpl), ("GenLibSmall.v", gen_lib_small), ("GenLibLoops.v", gen_lib_loops),
               ("GenCounters.v", gen_counters),
               ("GenRounds.v", gen_kernel_rounds)]
 
